@@ -12,2537 +12,2432 @@ Definition show_fres (r : fres) : string :=
   end.
 Definition check (rs : list rune) : string := digest (show_fres (format_res rs)).
 Definition full (rs : list rune) : string := show_fres (format_res rs).
-Eval vm_compute in ("<<<M4274>>>" ++ check (runes_of_ascii "packet u {
-    @tag(007)
-    @calculatedFrom("""")
-    match i64_ as roots {
-        [0, 3, ""`tick`"", ""1""] : rootA,
-        //x
-        // c
-        00 : pack,
-        [0123456789, 0123456789, 255, ""1""] : msg_type,
-        10 : chars,
-        ""it's"" : o,
-        /// triple
-    },
-    BodyLength {
-        char[255] metadata `
-        `,
-    },
-    options1 {
-        match asx as packetx {
-            ""abc"" : u128,
-            [3, 4294967296, 4294967296, """", """ ++ [28040; 24687]%N ++ runes_of_ascii """] : leftPad,
-            0 : Header,
-            """ ++ [233]%N ++ runes_of_ascii "t" ++ [233]%N ++ runes_of_ascii """ : T,
-        },
-        repeat char[] Z9_ `{ , }`,
-    },
-    @calculatedFrom(""packet"")
-    @calculatedFrom(""x y"")
-    @tag(255)
-    leftPad {
-        repeat leftPad {
-            float32 falsey @lengthOf(falsey) `a\`,
-            zchar[0] matchKey,
-            zchar[4294967296] a1,
-            match packetx as u {
-                [
-                    00, 00, ""abc"", """ ++ [233]%N ++ runes_of_ascii "t" ++ [233]%N ++ runes_of_ascii """, ""a\\"",
-                    ""{,}""
-                ] : BodyLength,
-                """ ++ [233]%N ++ runes_of_ascii "t" ++ [233]%N ++ runes_of_ascii """ : asx,
-                [007, ""a	b""] : body,
-                [00, 0123456789] : crc,
-            },
-        },
-    },
-    repeat uint8x o `doc`,
-    @tag(65535)
-    u16 Logon @lengthOf(uint8x) `a\`,
-    f32a {
-        repeat char[] matchKey `
-        `,
-        zchar[4294967296] i64_,
-        // packet A { u8 x, }
-        repeat lengthOf {
-            repeat i16 matchKey,
-            u8 falsey,
-            i32 Pad @lengthOf(u8x) ``,
-            charz `crlf
-            line`,
-        },
-        packetx {
-            int64 trueish,
-            char[42] u @lengthOf(u) `// not a comment`,
-            repeat char[1] i8i8,
-            match x_y_z as u8x {
-                [""\n""] : calculatedFrom,
-            },
-        },
-    },
-    @leftPad('0')
-    As @calculatedFrom(""it's""),
-    @calculatedFrom(""CRC32"")
-    x_y_z @lengthOf(crc),
-    @leftPad('0')
-    @calculatedFrom(""`tick`"")
-    @tag(10)
-    char[42] Z9_ @calculatedFrom(""abc""),
-}
-
-MetaData repeatCount {
-    i8 u `tab	here`,
-    char[255] u,
-    u32 msg_type `doc`,
-    i64_ _x,
-}
-
-options {
-    repeatCount = 255;
-    x_y_z = ' ';
-    charz = uint8;
-    Packet = false
-    BodyLength = true;
-}
-
-options {
-    asx = """ ++ [128512]%N ++ runes_of_ascii """
-    uint8x = char[4294967296];
-    u = '0'
-}")).
-Eval vm_compute in ("<<<M891>>>" ++ check (runes_of_ascii "packet o
-    {
-    i64 Packet `
-`, } root packet falsey { i8 zchar @lengthOf(i64_ )
-    // trailing space 
-    , @tag( 255 )
-    char[ 10]// c
-i64_@calculatedFrom(""\n"" ) `u8 x,`	,
-@leftPad(	' ' ) i64 uint8x ,
-repeat
-u8x
-    {// " ++ [27880; 37322]%N ++ runes_of_ascii "
-rootA
-{ MetaDataX
-    @lengthOf( // `tick` ""quote"" 'q'
-trueish
-)	, T@lengthOf(
-    f32a) ,
-    // a // b
-    repeat
-    stringy,} , pack  @calculatedFrom(
-""it's"" ) ,
-    i16
-    metadata
-`u8 x,` , repeat
-int
-    ,} ,
-    // @lengthOf(
-    } packet
-    // " ++ [128512]%N ++ runes_of_ascii " emoji
-    body { leftPad { match u8x
-    as
-i64_
-    { // @lengthOf(
-[ 007 ,0 ] :
-    a1 ,[ 42 ]:	A  ,	} ,
-match	x as Z9_ { 007
-    :MetaDataX
-    ,
-0
-    //	t
-    :leftPad ,""" ++ [128512]%N ++ runes_of_ascii """ :
-    MetaDataX ,
-""abc"" :uint8x ,007: trueish,
-    // c
-    } , } ,
-zchar @calculatedFrom( ""// no comment"")  ,
-trueish	@lengthOf( u ) `line1
-line2` , @calculatedFrom( ""abc"" ) char[]
-    /// triple
-    len /// triple
-`tab	here`
-, float64 zchar
-`line1
-line2`
-, match i64_ //
-as body
-{[ // @lengthOf(
-0123456789
-    // c
-    ]
-    : float 10:  Foo ,
-[ ""CRC32""
-]: Foo ""x y"" :metadata , [ 10 ,	255 , ""abc"" ,0123456789, //x
-0 , 1 ,
-7 ]
-:	f32a, } , @calculatedFrom(""{,}"" )
-    @lengthOf(
-    len // a // b
-)
-    match x_y_z as uint8x {
-""\" ++ [233]%N ++ runes_of_ascii """:T ,  } , o @lengthOf(// trailing space 
-body )
-    ,	u64 //
-o @calculatedFrom(
-""a	b""
-    ) // c
-`say ""hi""`
-,repeat  string Header
-    , }packet
-zchar {
-// `tick` ""quote"" 'q'
-// packet A { u8 x, }
-@rightPad ( // " ++ [27880; 37322]%N ++ runes_of_ascii "
-'0'
-//	t
-/// triple
-)
-repeat
-zchar[ 3]  o `doc` , zchar[
-    // packet A { u8 x, }
-    4294967296 ] x_y_z , @calculatedFrom(""{,}""
-    /// triple
-    )	@calculatedFrom(	""" ++ [28040; 24687]%N ++ runes_of_ascii """ ) float32
-    A @lengthOf(Pad ),
-    @tag(
-    7 )
-    // `tick` ""quote"" 'q'
-    Packet
-    @calculatedFrom(
-    ""// no comment""
-    )
-,zchar[ 10 ]
-asx
-    // " ++ [27880; 37322]%N ++ runes_of_ascii "
-    `` /// triple
-, tag len `tab	here`,	}
-")).
-Eval vm_compute in ("<<<M4249>>>" ++ check (runes_of_ascii "  packet  trueish
-
-{
-    @calculatedFrom(
-    """"
-    ) u
-@lengthOf(
-a1
-    ),
-	}
-
-options//	t
-
-  {	trueish
-	=
-    42 } options	{	//	t
-}
-
-packet	Foo{ 
-match
-matchKey as
-body 
-{ 
-// `tick` ""quote"" 'q'
-	[
-4294967296]
-
-    :
-	Packet 
-, 
-00 : 
-A 
-,
-}
-, @calculatedFrom(
-""x y""	) 	 // " ++ [27880; 37322]%N ++ runes_of_ascii "
-	@lengthOf(	a1
-)	repeat 
-f64 
-rootA , }packet
-    len
-{ @calculatedFrom(""// no comment"")string	T
-
-    @lengthOf(f32a
-)  ,float32	chars
-,
-
-    @rightPad  (
-    ' '
-
-)repeat
-    chars {
-
-    string
-A 
-, string
-
-    i64_
-`line1
-line2`
-
-    , float32
-    //
-    i8i8
-
-    ,uint64 
-/// triple
-      matchKey 
-@calculatedFrom(""abc"" )  
-      /// triple
-    // `tick` ""quote"" 'q'
-`" ++ [233]%N ++ runes_of_ascii "`
-,
-
-    }
-
-,
-
-A 
-`a\`,
-    @tag( 00 ) @tag( 0123456789 )
-
-@tag(1 )	u128 { i64_ {
-    // c
-
-	// trailing space 
-
-  BodyLength, i64 u
-    `{ , }`
-
-,
-	match
-
-Z9_ as
-
-    chars /// triple
-    {	[	""""  ]:	// `tick` ""quote"" 'q'
-
-float	, [0123456789
-    ,
-	42 ,	3 
-,
-
-    //	t
-      10 ,10
+Eval vm_compute in ("<<<M3526>>>" ++ check (runes_of_ascii "options { LittleEndian // c2a
+  // c2b
+=
+    // c3
+true ;
+    // c5
+StringPrefixLenType // c6
+= u64
+    // c8
+; ArrayPrefixLenType // c10
+=
+    // c11
+u8 // c12
+; FixedStringPadChar // c14
+= '0' // c16
+; // c17a
+  // c17b
+} // c18
+packet // c19
+Reject // c20
+{ // c21
+i32 // c22
+Ref ,
+    // c24
+repeat f64 // c26a
+  // c26b
+OrderId , // c28a
+  // c28b
+repeat // c29
+InNote12 // c30a
+  // c30b
+{ // c31a
+  // c31b
+u8 // c32a
+  // c32b
+pad0 ,
+    // c34
+} , // c36
+@leftPad // c37
+( // c38
+' ' // c39
+) char[ 6 // c42a
+  // c42b
 ]
-// a // b
-  /// triple
-	:stringy  ,
-	""1""	: trueish  , 	 // packet A { u8 x, }
-	""packet""
-: u128 
-[ ""x y"", 
-7
-
-    ] :
-
-    A
-    } ,	int32
-	a1,
-	} ,
-	rootA
-    //x
-  	/// triple
-
-	`doc`
-	, 
-//x
-	  // `tick` ""quote"" 'q'
-  }
-    ,	@rightPad(  ' '
-)
-    repeat options1	{ int @calculatedFrom(
-""packet""
-) 
-, // " ++ [128512]%N ++ runes_of_ascii " emoji
-  	} 
-, 
-repeat
-    char[65535
-]
-falsey 
-	    // packet A { u8 x, }
-		,
-	@rightPad
-    (
-    )
-repeat
-char[] i8i8 ,repeat
-
-calculatedFrom  msg_type ,
-@rightPad
-    (
-
-)
-@tag(
-
-65535 )
-repeat
-calculatedFrom
-    crc
-
-, } ")).
-Eval vm_compute in ("<<<M995>>>" ++ check (runes_of_ascii "// " ++ [128512]%N ++ runes_of_ascii " emoji
-packet options1 {
-match
-    MetaDataX  as
-matchKey
-{ 4294967296:  i8i8 ,  7	: // a // b
-Header ,
-    // trailing space 
-    } ,
-    crc Pad `doc`, @leftPad
-/// triple
-//
-( ) repeat o f32a `u8 x,` , @lengthOf( calculatedFrom
-    ) repeat int32 body
-,// trailing space 
-@tag(0123456789)
-@tag( 42 ) @calculatedFrom( ""\n"" ) Foo { A	,//x
-} , @tag(
-    3 )@tag(3	)char	Header
-    `it's`
-    // packet A { u8 x, }
-    , repeat float { char[ 007
-    // `tick` ""quote"" 'q'
-    ] // " ++ [27880; 37322]%N ++ runes_of_ascii "
-u8x `tab	here` ,	f32a
-    { // packet A { u8 x, }
-match As as MetaDataX {4294967296 :u
-, 1
-    // @lengthOf(
-    :Pad ,
-// " ++ [128512]%N ++ runes_of_ascii " emoji
-//x
-3 // " ++ [27880; 37322]%N ++ runes_of_ascii "
-:  x_y_z,
-""" ++ [28040; 24687]%N ++ runes_of_ascii """
-    :
-asx , 1
-    // " ++ [27880; 37322]%N ++ runes_of_ascii "
-    :matchKey
-// `tick` ""quote"" 'q'
-// packet A { u8 x, }
-,  """"
-:leftPad,
-} // `tick` ""quote"" 'q'
-,
-repeat // `tick` ""quote"" 'q'
-i16
-float
-    `u8 x,` ,
-match
-chars as
-int {"""" : rootA , // c
-""packet"":f32a
-, [ ""a	b""  , 3
-    ,4294967296 , """ ++ [28040; 24687]%N ++ runes_of_ascii """
-    // " ++ [27880; 37322]%N ++ runes_of_ascii "
-    ]: Packet
-[
-""a\""b"" ,""a	b"" , 0123456789
-    , 255 , ""\n""
-,
-    ""a	b"" ,
-00
-, ""1""
-    ]
-: //
-stringy 0123456789  : lengthOf ,10 :i64_
-, }
-    , matchKey{
-// a // b
-//	t
-repeat int16 zchar `crlf
-line`
-    // " ++ [128512]%N ++ runes_of_ascii " emoji
-    ,
-    } ,
-} ,
-    } ,repeat Pad { float32
-trueish`// not a comment` ,
-    } , repeat char[
-    0] i64_ `say ""hi""` , @tag(65535 )
-    // c
-    u128
-, }")).
-Eval vm_compute in ("<<<M673>>>" ++ check (runes_of_ascii "options
-    {  asx= true ; matchKey
-= ' '// packet A { u8 x, }
-;
-    Z9_  =int8 BodyLength=
-char[]
-}MetaData
-    calculatedFrom {
-float32 tag,  char[]Header , float64 charz
-, falsey
-Z9_ ,
-string
-    A, char[
-    65535] leftPad, }
-    packet BodyLength { i16
-    Foo , @tag( 65535 ) @lengthOf( lengthOf )@tag( 007)
-x@calculatedFrom( ""packet""  )	`u8 x,` , Logon	@calculatedFrom( ""1"" )
-`two words`, }	MetaData options1 // packet A { u8 x, }
-{ }
-packet Packet { pack// a // b
-,repeat char[] o ,@lengthOf(
-    // c
-    uint8x ) string_ //
-@calculatedFrom(""a\""b""
-),
-    @tag(
-0 )
-u16 repeatCount `
-`  , string
-Packet
-    , @tag(
-0123456789 //
-)  match x
-as zchar
-    { 42: msg_type , [ 3 ,""{,}"" ] :
-// " ++ [27880; 37322]%N ++ runes_of_ascii "
-//
-u,//
-4294967296: repeatCount , [ ""a\\"" ,	""`tick`"" , ""// no comment"" ,
-//	t
-// a // b
-3 ,
-""""	,
-    // packet A { u8 x, }
-    ""a\\"" ] :
-    i64_	, ""`tick`""/// triple
-: zchar, [
-    ""// no comment"" ]	:MetaDataX } // packet A { u8 x, }
-,
-    Foo @lengthOf( A
-    ) , char[65535
-] Pad `it's` , match
-    matchKey
-as
-x { [""" ++ [128512]%N ++ runes_of_ascii """  ,
-""\" ++ [233]%N ++ runes_of_ascii """ ,
-0123456789,//
-""CRC32""// @lengthOf(
-,
-""`tick`""
-    ,	""a\""b"",
-""a	b"" ] :stringy
-, } ,
-// " ++ [128512]%N ++ runes_of_ascii " emoji
-//	t
-repeat uint16 Logon
-//
-/// triple
-, }
-")).
-Eval vm_compute in ("<<<M4218>>>" ++ check (runes_of_ascii "  // a // b
-    	packet 
-chars { 
-i64_
-
-tag
-
-`say ""hi""`
-,}  
-  // " ++ [128512]%N ++ runes_of_ascii " emoji
-    // `tick` ""quote"" 'q'
-	packet
-
-    tag
-	{} // c
-  packet	roots
-    {
-repeat  //x
-	x_y_z`
-` ,
-
-    }
-	packet  lengthOf { // c
-i64  int  `{ , }`
-
-,
-@lengthOf(  trueish
-
-    )@lengthOf(	stringy  // packet A { u8 x, }
-    )// @lengthOf(
-  repeat
-x
-    repeatCount`u8 x,` ,
-    char[] rootA
-
-    ,
-uint16  int @calculatedFrom( 	 // " ++ [128512]%N ++ runes_of_ascii " emoji
-		""\" ++ [233]%N ++ runes_of_ascii """
-)`say ""hi""`/// triple
-	, @lengthOf(string_
-// a // b
-    )  char[]int@calculatedFrom(""a\\""
-) ,
-@tag(
-0 )@calculatedFrom(
-	""\n"" ) 	 // " ++ [128512]%N ++ runes_of_ascii " emoji
-  	i32
-    string_	@lengthOf(
-falsey
-) `say ""hi""`	,
-
-    @tag( 3
-	)
-
-    @lengthOf(BodyLength  )
-	repeat
-
-    Z9_{
-	match	// " ++ [27880; 37322]%N ++ runes_of_ascii "
-T // @lengthOf(
-
-as
-charz
-{	// packet A { u8 x, }
-  [
-
-    255
-, ""a\""b"",	"""" ,
-
-00 ,
-
-0123456789
-
-    ,""\n""
-	,
-
-""\" ++ [233]%N ++ runes_of_ascii """ //x
-		]  :
-    x_y_z 3
-: Foo,
-	    // @lengthOf(
-}	, 
-char[ 4294967296  ]
-calculatedFrom
-@lengthOf(	Z9_  ) ,}
-    , 
-i64 trueish
-
-@lengthOf(/// triple
-T
-    )
-`" ++ [233]%N ++ runes_of_ascii "`
-,
-@lengthOf(body
-)	@lengthOf(
-    matchKey // `tick` ""quote"" 'q'
-	  ) 
-tag
-
-trueish
-	``
-
-    ,
-	}
-packet
-	Foo 
-{ }
-")).
-Eval vm_compute in ("<<<M4034>>>" ++ check (runes_of_ascii "
-root
-    packet
-    //	t
-	  len
-	{
-	roots 
-@calculatedFrom( ""\n"")
-
-    ,
-}  root
-
-    packet
-	u 
-{ @lengthOf(
-
-i8i8
-)float64
-    Header@calculatedFrom(	""1""
-	)
-
-    `a\`
-    , lengthOf{stringy @lengthOf( BodyLength
-
-)
-	,float64
-    BodyLength 	 // trailing space 
-`tab	here`
-
-, /// triple
-    int16
-
-a1
-@calculatedFrom( 
-""{,}"") `{ , }`
-
-    ,  BodyLength ,}
-	,
-	@tag(1 
-) @rightPad
-
-(  )
-@rightPad
-	( '0'  )  // @lengthOf(
-
-	packetx  @calculatedFrom(  ""\n"" 
-)	, // @lengthOf(
-  @lengthOf(Pad
-    )
-	zchar[65535
-
-    // packet A { u8 x, }
-	// trailing space 
-	]
-	    // trailing space 
-    lengthOf,	char[	// " ++ [27880; 37322]%N ++ runes_of_ascii "
-  007]
-	string_
-`// not a comment`	,
-@rightPad
-
-( )repeat //	t
-	  string falsey
-
-,
-	@tag(
-4294967296
-	) 
-	    //x
-char
-	Foo `
-`,
-	match
-    options1
-
-as 
-body{  65535
-: o
-
-    4294967296
-
-:
-
-tag,  ""x y""
-
-    : trueish 
-
-// packet A { u8 x, }
-    ,	""packet""
-
-:
-    As,
-
-    [
-
-0123456789
-]
-:
-
-    rootA
-
-    , ""x y"" 
-: 
-uint8x
-
-, }
-    , } MetaData
-
-x {	metadata zchar
-`" ++ [28040; 24687; 31867; 22411]%N ++ runes_of_ascii "`, 
+    // c43
+count ,
+    // c45
 }
-	options{
-Foo=char[  255  ] ;	}")).
-Eval vm_compute in ("<<<M694>>>" ++ check (runes_of_ascii "packet Logon { @leftPad('0' )
-    @calculatedFrom(	""CRC32"" )
-match x_y_z as calculatedFrom
-    {[
-// trailing space 
-// " ++ [128512]%N ++ runes_of_ascii " emoji
-65535 ,
-10 ]
-:asx 0 :	BodyLength
-,}
-//
-// a // b
-, @lengthOf(	metadata
-    )int16 leftPad , match charz
-as i8i8 { [
-    65535// a // b
-] :
-    repeatCount , ""CRC32""  : Packet
-    ,
-""a\""b""
-: Z9_ , 00 :
-    falsey , 7 :falsey ,
-}
-, // " ++ [27880; 37322]%N ++ runes_of_ascii "
-@lengthOf( body  )
-i32 i8i8
-`two words`,
-    @calculatedFrom( ""`tick`"") body
-    { zchar[ 0 ]BodyLength `doc`
-    ,  u
-`
-` , } ,@tag( 0123456789 ) @leftPad ( '\x00'  )@calculatedFrom(""a	b"" )
-    match As as x_y_z	{ """ ++ [128512]%N ++ runes_of_ascii """ :
-i64_, 0123456789:
-Foo
-,
-65535  :matchKey , 65535 :lengthOf 4294967296 // a // b
-:
-    f32a
-, },
+    // c46
+packet // c47a
+  // c47b
+Logout // c48a
+  // c48b
+{ // c49a
+  // c49b
 zchar[
-0] string_ @lengthOf( packetx ) `" ++ [233]%N ++ runes_of_ascii "`
-,@calculatedFrom( ""x y"" )
-    BodyLength { char[1 ] int,
-f32a
-    , repeat Pad	tag `say ""hi""` ,  } ,
+    // c50
+6 // c51a
+  // c51b
+] // c52
+Tail , // c54
+repeat
+    // c55
+string // c56
+venue // c57
+, // c58a
+  // c58b
+} // c59a
+  // c59b
+packet Cancel
+    // c61
+{ // c62a
+  // c62b
+u64 // c63
+count
+    // c64
+, repeat // c66
+char[ // c67a
+  // c67b
+5
+    // c68
+] // c69a
+  // c69b
+lastPx
+    // c70
+, // c71
+i64 // c72a
+  // c72b
+Tail // c73a
+  // c73b
+,
+    // c74
+repeat InF140 { // c77
+repeat Logout // c79
+,
+    // c80
+repeat // c81
+Reject // c82a
+  // c82b
+, // c83
+} // c84
+,
+    // c85
+} root // c87a
+  // c87b
+packet // c88a
+  // c88b
+Trade {
+    // c90
+repeat // c91
+InMsgkind39 // c92a
+  // c92b
+{ // c93a
+  // c93b
+repeat Reject ,
+    // c96
+char[ // c97
+4 // c98a
+  // c98b
+] // c99
+Px // c100
+, } , // c103a
+  // c103b
+string // c104a
+  // c104b
+Acct // c105
+, uint16
+    // c107
+price // c108
+, // c109a
+  // c109b
+f32 OrderId
+    // c111
+, // c112a
+  // c112b
+u16 // c113a
+  // c113b
+x
+    // c114
+,
+    // c115
+u16 // c116a
+  // c116b
+clOrdID
+    // c117
+@lengthOf( Body ) // c120
+, // c121
+match // c122
+x // c123a
+  // c123b
+as // c124
+Body // c125
+{ // c126
+178
+    // c127
+: // c128a
+  // c128b
+Logout
+    // c129
+, 13 : // c132
+Cancel // c133
+, // c134a
+  // c134b
+174
+    // c135
+: // c136a
+  // c136b
+Reject
+    // c137
+, // c138
+} // c139a
+  // c139b
+, // c140a
+  // c140b
+u16
+    // c141
+Flags // c142a
+  // c142b
+@calculatedFrom( // c143
+""CRC32"" // c144a
+  // c144b
+) // c145a
+  // c145b
+,
+    // c146
+} // c147a
+  // c147b
+")).
+Eval vm_compute in ("<<<M1242>>>" ++ check (runes_of_ascii "// " ++ [128512]%N ++ runes_of_ascii " emoji
+packet f32a { falsey, } packet metadata { //	t
+@lengthOf(tag )
+u8 A @calculatedFrom(  """ ++ [28040; 24687]%N ++ runes_of_ascii """
+) `// not a comment` ,
+@calculatedFrom( """ ++ [28040; 24687]%N ++ runes_of_ascii """
+) i64 i64_ @calculatedFrom( ""abc""// packet A { u8 x, }
+)`a\` ,u8
+u128  ,
+string_ `line1
+line2` ,@calculatedFrom(// " ++ [128512]%N ++ runes_of_ascii " emoji
+""\" ++ [233]%N ++ runes_of_ascii """  ) // " ++ [27880; 37322]%N ++ runes_of_ascii "
+@calculatedFrom( ""it's"" ) @calculatedFrom( // c
+""\n"") repeat pack { zchar[ 0
+    ] Foo
+    @lengthOf(
+uint8x ) , float32 x , } , repeat roots`a\` ,f64 Header @calculatedFrom(
+""// no comment"" ) , zchar[42 ] zchar	, options1 o// " ++ [27880; 37322]%N ++ runes_of_ascii "
+`" ++ [28040; 24687; 31867; 22411]%N ++ runes_of_ascii "`
+, repeat
+    zchar[ 7 ] len
+, // " ++ [27880; 37322]%N ++ runes_of_ascii "
+}
+packet MetaDataX{ @calculatedFrom( ""a	b"" )repeat u128 { match rootA as
+crc {007
+:
+pack
+    , 10 : u8x ,""a\\"" : falsey , [
     //x
-    zchar[
-    // `tick` ""quote"" 'q'
-    0 ]
-    Foo
-@calculatedFrom(
-""// no comment""
-) ,
-@tag( 00 ) u16 roots `it's`
-,	}
-root packet roots
-{
-    }
-")).
-Eval vm_compute in ("<<<M357>>>" ++ check (runes_of_ascii "MetaData msg_type{ string
-charz , crc u8x  ,
-    u16 x_y_z
-    `u8 x,`
-, i64	zchar
-,
-    }
-    // @lengthOf(
-    packet T
-{
-@calculatedFrom( ""a\\"" ) uint16 chars @calculatedFrom(
-    ""x y"") `
-` , } packet pack // a // b
-{}
-    options { }	packet trueish
-{
-    // trailing space 
-    @calculatedFrom(//x
-""abc""	) match chars as lengthOf  {  [ 4294967296
-]
-: a1[""CRC32"" ,/// triple
-7	, ""1""
-, 4294967296// c
-,  ""a\\"" ,
-    0, 65535 , ""{,}""
-] :  a1 , }
-// packet A { u8 x, }
-// trailing space 
-, string	lengthOf  `" ++ [28040; 24687; 31867; 22411]%N ++ runes_of_ascii "` ,
-@lengthOf( // trailing space 
-x ) match
-charz as a1 { 255:// trailing space 
-Logon,
-    }, @calculatedFrom(
-""a	b""// a // b
-)  @tag(00
-// " ++ [27880; 37322]%N ++ runes_of_ascii "
-// `tick` ""quote"" 'q'
-)	@lengthOf( zchar ) body @lengthOf(
-    /// triple
-    msg_type)
-    , MetaDataX	@lengthOf( len ) /// triple
-`a\`/// triple
-, @rightPad
-( '\x00' ) @lengthOf(
-Packet
-    ) string u128// `tick` ""quote"" 'q'
-`u8 x,` // c
-,
-packetx @lengthOf(	o )
+    ""{,}"",
+0 , """ ++ [233]%N ++ runes_of_ascii "t" ++ [233]%N ++ runes_of_ascii """ , 42
+    // a // b
+    ,
+255
+, ""\n"", 10 , ""// no comment""// c
+] : leftPad
+, ""1"" :
+    x_y_z ,
+7
+    :	Z9_ ,} // " ++ [27880; 37322]%N ++ runes_of_ascii "
+, } ,
+msg_type { repeat char[]  Pad ,/// triple
+uint16 body
 , }
+,
+    // `tick` ""quote"" 'q'
+    uint16 u@lengthOf(leftPad)
+    ,	@tag( 255 //
+) repeat u128
+{ repeat string_, repeatCount pack , repeat	stringy
+{
+    zchar[ 10 ] crc
+    `doc`, i16
+leftPad @calculatedFrom( ""it's"" ) `
+`
+    ,
+    tag { repeat
+char[] repeatCount `u8 x,`
+//	t
+// trailing space 
+, match	stringy
+as Foo	{
+1 : asx, }
+,match i64_ as Packet
+{ ""a\""b"" :  Pad,
+    ""a\\"": o ,
+    [0, 0123456789 ,7 , 1 , //x
+1, 7 ]
 // @lengthOf(
+//x
+: matchKey
+, },  } ,
+} , i64 body
+@lengthOf( metadata)  `u8 x,`  , } ,
+string crc `two words` , @lengthOf(
+charz )@calculatedFrom(""" ++ [233]%N ++ runes_of_ascii "t" ++ [233]%N ++ runes_of_ascii """ )
+match
+    string_ as
+stringy{ // @lengthOf(
+[	0  ] :
+pack // c
+,""CRC32"": crc , 1
+: int ,
+}//
+, repeat // `tick` ""quote"" 'q'
+u8
+matchKey `` ,repeat int8 // a // b
+matchKey , Header // `tick` ""quote"" 'q'
+crc , } // `tick` ""quote"" 'q'")).
+Eval vm_compute in ("<<<M940>>>" ++ check (runes_of_ascii "  options {
+    uint8x = u64 ; crc =	'0'
+// @lengthOf(
+// " ++ [128512]%N ++ runes_of_ascii " emoji
+MetaDataX= '0' ;
+    len
+    ='0' } MetaData
+matchKey
+{/// triple
+}
+packet
+// " ++ [128512]%N ++ runes_of_ascii " emoji
+/// triple
+i64_{ BodyLength
+    `tab	here`, @tag(
+00 )
+repeat string_ ,
+    @calculatedFrom( """ ++ [28040; 24687]%N ++ runes_of_ascii """ ) @leftPad ( '0' ) crc @calculatedFrom(
+    """ ++ [233]%N ++ runes_of_ascii "t" ++ [233]%N ++ runes_of_ascii """
+    ) , @tag(
+    1	)  zchar[ 007 ] packetx
+`
+`,
+@leftPad (
+'0' ) x @calculatedFrom( ""packet""
+    )
+// `tick` ""quote"" 'q'
+// a // b
+,
+@lengthOf( A ) /// triple
+@calculatedFrom(  ""{,}"" //x
+)@rightPad (
+'0'  ) string Header `say ""hi""`
+// a // b
+// c
+, @lengthOf(	u8x
+)
+x Header `doc`
+// packet A { u8 x, }
+//x
+,}
+    packet uint8x{ @leftPad (
+'\x00')
+    @lengthOf( //	t
+leftPad	)
+    BodyLength u , }	root packet A { @rightPad ( '\x00' )
+    @lengthOf(
+    leftPad  ) char[ 4294967296 ] A @calculatedFrom( ""// no comment"" ),
+    @tag(
+42	)
+@calculatedFrom( ""packet"")	@calculatedFrom( """ ++ [128512]%N ++ runes_of_ascii """ ) repeat
+Z9_ `" ++ [28040; 24687; 31867; 22411]%N ++ runes_of_ascii "` ,
+rootA crc // " ++ [27880; 37322]%N ++ runes_of_ascii "
+,
+    Header ,  char[
+    4294967296	]
+charz`{ , }` , @calculatedFrom( ""\n"" ) @calculatedFrom(
+    ""it's"" ) u64//
+stringy
+    `" ++ [233]%N ++ runes_of_ascii "` , repeat options1 {
+    body
+    { lengthOf @calculatedFrom(
+    //x
+    ""a\\""
+)
+, options1{ repeat chars leftPad `two words` ,
+// " ++ [27880; 37322]%N ++ runes_of_ascii "
+// " ++ [27880; 37322]%N ++ runes_of_ascii "
+} , } ,repeat// " ++ [27880; 37322]%N ++ runes_of_ascii "
+char[] _x , zchar[ 3] options1
+    //x
+    ,
+} ,@lengthOf( packetx ) @leftPad
+    ( ' '
+    )
+    @lengthOf( rootA )float  Packet , @tag( 7 )
+repeat
+// " ++ [27880; 37322]%N ++ runes_of_ascii "
+// trailing space 
+u8	matchKey,}
+//	t
 ")).
-Eval vm_compute in ("<<<M4326>>>" ++ check (runes_of_ascii "options {
-    string_ = zchar[00];
+Eval vm_compute in ("<<<M3620>>>" ++ check (runes_of_ascii "MetaData body {
+asx stringy
+, f64
+        // " ++ [27880; 37322]%N ++ runes_of_ascii "
+    	// c
+      As
+
+    ``
+
+,
+
+Foo Logon
+`a\` 
+// " ++ [27880; 37322]%N ++ runes_of_ascii "
+, packetx
+	asx
+    `" ++ [28040; 24687; 31867; 22411]%N ++ runes_of_ascii "`
+,  u32
+    matchKey `line1
+line2`,u16	chars	,
+}	root
+packet
+    _x  //	t
+		{ 
+match
+	rootA  as
+	repeatCount{ 
+      /// triple
+
+  //x
+	007
+
+:msg_type /// triple
+	[	4294967296 , ""// no comment""	]:  leftPad,
+"""":packetx
+,
+
+    0123456789
+:
+    Logon 
+, 10
+:
+	a1
+
+,
+[
+""abc""
+
+    ,7  // packet A { u8 x, }
+		, ""CRC32"",
+0123456789
+
+    ,
+
+255  ,
+
+    ""a\""b""
+    , 
+""" ++ [128512]%N ++ runes_of_ascii """
+
+    ] :len  ,}
+    ,
+    repeat 
+string
+trueish , @rightPad(
+
+    ) int64
+f32a
+@lengthOf(tag
+) 
+, 
+
+// a // b
+// @lengthOf(
+    zchar[
+	42
+
+    ] 
+lengthOf
+	@lengthOf(  tag
+)  `{ , }` ,
+@tag(
+
+10) int32
+    //
+//	t
+leftPad
+
+    `doc`
+, x_y_z
+chars ,  @calculatedFrom(
+	""// no comment""
+	) @lengthOf(
+	_x )
+    @lengthOf(
+	matchKey
+    ) repeat
+	zchar 
+zchar	,
+@calculatedFrom(	/// triple
+""a	b""	)  repeat
+	Pad	i8i8
+,@tag(
+	1
+    // c
+  )
+
+    repeat  int16 
+metadata	,	} options	{
+    T
+=
+""`tick`""
+    // packet A { u8 x, }
+    ; 
+crc = 
+'\x00'; 	 // packet A { u8 x, }
+  o
+	= ' '
+
+    ;
+
+    } packet 
+matchKey// trailing space 
+  {  zchar[  0123456789
+
+    ] crc	, @lengthOf(packetx)char[]	//	t
+    	uint8x
+
+`say ""hi""` , repeat
+    As  A ,}  
+  // c")).
+Eval vm_compute in ("<<<M873>>>" ++ check (runes_of_ascii "packet i8i8  {
+@lengthOf( body )
+// trailing space 
+// " ++ [128512]%N ++ runes_of_ascii " emoji
+@lengthOf(  T
+    )calculatedFrom @calculatedFrom( """" ) , uint32 x`crlf
+line`
+    , uint64 string_ `{ , }` ,i64 _x // `tick` ""quote"" 'q'
+@calculatedFrom(""a	b""
+    )
+`doc` , @lengthOf( len )
+asx `doc`,charz `two words`,
+}  packet	u { @rightPad (	) repeat u128 u8x
+    , // trailing space 
+float64 stringy @calculatedFrom(
+    """ ++ [128512]%N ++ runes_of_ascii """)`crlf
+line` ,
+@rightPad( ) @tag(10 ) repeat
+    options1 `crlf
+line`, zchar[ 0 ] i8i8 , int16 // " ++ [128512]%N ++ runes_of_ascii " emoji
+matchKey@calculatedFrom(""CRC32"" )
+,}packet string_	{ zchar
+    // @lengthOf(
+    @calculatedFrom( ""packet"" ), repeat
+asx chars `tab	here` , }packet falsey { body
+BodyLength`two words`
+// a // b
+// trailing space 
+,
+match Z9_	as lengthOf{
+4294967296 : roots // " ++ [27880; 37322]%N ++ runes_of_ascii "
+} , char[	3
+    // @lengthOf(
+    ]asx `crlf
+line` , }root packet float	{
+repeat  i8i8 , @lengthOf(options1 ) roots
+roots  ,
+repeat zchar[ 1 ]
+    /// triple
+    pack , i64_ , falsey`` , match options1 as
+    // @lengthOf(
+    x_y_z { 0// packet A { u8 x, }
+: int , } ,	zchar[ 007 ] A@calculatedFrom( ""a	b""	)
+, trueish {repeat char[]i8i8 `doc` , }  , i8i8 `
+`
+    //
+    , uint8 roots `two words`// c
+,} 	 ")).
+Eval vm_compute in ("<<<M1119>>>" ++ check (runes_of_ascii "packet msg_type {  char[ 10
+    ]Logon  @lengthOf(	u8x ) `` , repeat
+    i16
+    Logon `two words`
+,} MetaData matchKey  { zchar[ 0
+] tag`" ++ [28040; 24687; 31867; 22411]%N ++ runes_of_ascii "` , }
+    packet leftPad { repeat// trailing space 
+roots
+    // trailing space 
+    { match zchar	as
+T { ""{,}""
+//x
+// " ++ [27880; 37322]%N ++ runes_of_ascii "
+:
+    Z9_ , ""\n"" : tag
+""a\\"": lengthOf ,} , }
+, }root  packet a1
+{
+@tag(	3 )
+    u128`it's`
+    ,MetaDataX
+{match // `tick` ""quote"" 'q'
+metadata
+    as o  { ""`tick`""
+:roots 10 : u, ""\" ++ [233]%N ++ runes_of_ascii """ :	float , } , char[ 3 ]
+    /// triple
+    pack
+@calculatedFrom( ""`tick`""  ) , match
+pack  as asx {7
+    : rootA [
+42 , 1	,
+    ""\" ++ [233]%N ++ runes_of_ascii """ , ""a	b""  , """ ++ [28040; 24687]%N ++ runes_of_ascii """  ,00 ,10, ""a\\"" ]	:	x_y_z ,/// triple
+42 :f32a // " ++ [128512]%N ++ runes_of_ascii " emoji
+42:u // c
+, """ ++ [128512]%N ++ runes_of_ascii """ // @lengthOf(
+: A
+1 : Z9_// `tick` ""quote"" 'q'
+},} ,i64 roots , zchar[ 65535
+    ] stringy,crc @calculatedFrom( ""a\\"") , zchar[ 007]
+stringy
+    , /// triple
+string
+    Z9_ ,  @calculatedFrom( // c
+""x y"" )@lengthOf(calculatedFrom)@calculatedFrom( ""abc"") u128`it's`
+,//
+@tag(
+    // a // b
+    1 ) zchar[ 0123456789	] string_
+    , } options {//x
+metadata= '\x00' u = false
+T
+=	10 ;
+_x= ""abc"" asx = false ; } // packet A { u8 x, }")).
+Eval vm_compute in ("<<<M607>>>" ++ check (runes_of_ascii "packet
+Header
+// " ++ [27880; 37322]%N ++ runes_of_ascii "
+// a // b
+{
+    msg_type@lengthOf( leftPad// @lengthOf(
+) , @calculatedFrom( ""x y""
+) int16 A @calculatedFrom( """ ++ [233]%N ++ runes_of_ascii "t" ++ [233]%N ++ runes_of_ascii """ ) , @calculatedFrom( ""packet"") metadata@lengthOf( leftPad
+    )
+,
+match len  as pack {	7/// triple
+:a1
+    , 10: uint8x
+    ,""`tick`""// `tick` ""quote"" 'q'
+: // c
+options1 00
+: repeatCount , } ,
+@rightPad ( '\x00')//	t
+@tag(	10 ) @tag(
+7 // @lengthOf(
+)repeat char[ 42 ]	As`two words` , @tag( 65535 )
+    zchar
+// a // b
+// " ++ [27880; 37322]%N ++ runes_of_ascii "
+@lengthOf(
+    // packet A { u8 x, }
+    body
+)
+    `" ++ [28040; 24687; 31867; 22411]%N ++ runes_of_ascii "` , @tag(255 ) // packet A { u8 x, }
+repeat// " ++ [128512]%N ++ runes_of_ascii " emoji
+Packet
+    { repeat
+    char
+    falsey
+`two words`
+, repeat T {
+char[]chars ,repeat f32a {
+    // packet A { u8 x, }
+    repeat char[] falsey `tab	here` , } ,
+    } , match u8x as pack { [ ""{,}""
+,
+""\" ++ [233]%N ++ runes_of_ascii """
+    ,
+// trailing space 
+// c
+""a	b"" ,
+    ""\n""
+,1] // " ++ [128512]%N ++ runes_of_ascii " emoji
+:
+int
+    ""x y"" :
+    A
+,
+""CRC32"" : leftPad
+, }
+    , //x
+f32a x //
+,} ,  }
+packet charz {  repeat lengthOf
+lengthOf , }
+options{ body =
+true;
+metadata = 4294967296 ; len= uint32 ;	} // @lengthOf(")).
+Eval vm_compute in ("<<<M1058>>>" ++ check (runes_of_ascii "root
+    packet rootA {
+x_y_z { _x// a // b
+, } ,	}
+    MetaData leftPad { } packet float {	repeat // trailing space 
+Header{  float64 i64_
+    @calculatedFrom( ""{,}"" ) `crlf
+line` ,// c
+}
+    , // @lengthOf(
+zchar
+    // " ++ [27880; 37322]%N ++ runes_of_ascii "
+    { charz @calculatedFrom(//x
+""a	b""  ),  zchar[	3	]
+T @calculatedFrom(
+    ""it's"")
+, packetx ,	x_y_z As`u8 x,` ,  },
+} root packet
+// `tick` ""quote"" 'q'
+//	t
+asx{ repeat
+uint32
+u128 ,
+    @tag( /// triple
+3) Z9_
+, crc	@calculatedFrom( """"
+// @lengthOf(
+// " ++ [27880; 37322]%N ++ runes_of_ascii "
+) `{ , }` ,  @calculatedFrom(
+""a\\"" )@calculatedFrom( ""a\""b"" ) @tag(
+0123456789
+    )
+match
+float
+as u{ //
+[ 1
+// `tick` ""quote"" 'q'
+//x
+, 0 ,
+007 , """ ++ [128512]%N ++ runes_of_ascii """ ,
+// " ++ [128512]%N ++ runes_of_ascii " emoji
+//
+3 ,	1
+// " ++ [128512]%N ++ runes_of_ascii " emoji
+// @lengthOf(
+, """ ++ [28040; 24687]%N ++ runes_of_ascii """, 10
+    ]: repeatCount ,} ,  repeat char metadata
+`tab	here`
+,
+    // @lengthOf(
+    @tag( 65535	)// a // b
+i64_ {
+    // " ++ [128512]%N ++ runes_of_ascii " emoji
+    i32 roots`a\`	, } , @lengthOf( repeatCount
+)
+    // a // b
+    i16
+    rootA @lengthOf( u) ,@lengthOf( Header ) _x{ repeat A i8i8
+    ,
+    }//
+, }")).
+Eval vm_compute in ("<<<M4397>>>" ++ check (runes_of_ascii "root packet rootA {
+    x_y_z {
+        _x,
+    },
 }
 
-packet falsey {
-    @lengthOf(float)
-    string o,
-    repeat msg_type,
-    match MetaDataX as _x {
-        3 : Pad,
+MetaData leftPad {
+}
+
+packet float {
+    repeat Header {
+        float64 i64_ @calculatedFrom(""{,}"") `crlf
+                line`,// c
+    },// @lengthOf(
+    zchar {
+        charz @calculatedFrom(""a	b""),
+        zchar[3] T @calculatedFrom(""it's""),
+        packetx,
+        x_y_z As `u8 x,`,
     },
-    leftPad @lengthOf(i8i8),
+}
+
+root packet asx {
+    repeat uint32 u128,
+    @tag(3)
+    Z9_,
+    crc @calculatedFrom("""") `{ , }`,
+    @calculatedFrom(""a\\"")
+    @calculatedFrom(""a\""b"")
     @tag(0123456789)
-    i16 Packet `
-        `,
-    o pack `tab	here`,
-    zchar[10] int,
-    int16 Foo @calculatedFrom(""CRC32"") `u8 x,`,
-    match f32a as u8x {
-        [""{,}""] : T,
+    match float as u {
+        //
         [
-            65535, 3, 0, 0123456789, ""1"",
-            ""`tick`"", """ ++ [128512]%N ++ runes_of_ascii """, ""a\\""
-        ] : uint8x,
-        255 : a1,
-        ""a	b"" : falsey,
-        """ ++ [28040; 24687]%N ++ runes_of_ascii """ : x,
-        //	t
-        [3, ""packet""] : int,
+            1, 0, 007, """ ++ [128512]%N ++ runes_of_ascii """, 3,
+            1, """ ++ [28040; 24687]%N ++ runes_of_ascii """, 10
+        ] : repeatCount,
     },
-    repeat Foo {
-        zchar[1] body ``,
-        roots rootA,
-        char[0] rootA `doc`,
+    repeat char metadata `tab	here`,
+    // @lengthOf(
+    @tag(65535)
+    // a // b
+    i64_ {
+        // " ++ [128512]%N ++ runes_of_ascii " emoji
+        i32 roots `a\`,
     },
-}// `tick` ""quote"" 'q'
-
-options {
-}
-
-options {
-    Header = int16;
-    roots = false;
-    repeatCount = uint8;
-    stringy = ""x y"";
-    leftPad = ""it's"";
-}
-
-MetaData u {
-    string_ Header,
-    zchar[3] i64_,
+    @lengthOf(repeatCount)
+    // a // b
+    i16 rootA @lengthOf(u),
+    @lengthOf(Header)
+    _x {
+        repeat A i8i8,
+    },
 }")).
-Eval vm_compute in ("<<<M3974>>>" ++ check (runes_of_ascii "MetaData asx {
+Eval vm_compute in ("<<<M881>>>" ++ check (runes_of_ascii "
+packet
+matchKey { @tag( // `tick` ""quote"" 'q'
+00	) x // " ++ [128512]%N ++ runes_of_ascii " emoji
+@calculatedFrom( ""a\\"" )
+    ,
+    } packet metadata{ @tag(	0
+) zchar[ 3] // " ++ [27880; 37322]%N ++ runes_of_ascii "
+asx @lengthOf( msg_type )
+, @tag( 65535 )zchar[ 1
+    ] Header ,@calculatedFrom(""`tick`"") @calculatedFrom( ""it's"" ) @lengthOf( i8i8
+    // trailing space 
+    ) f32a { repeat A{
+    repeat repeatCount
+// @lengthOf(
+// " ++ [128512]%N ++ runes_of_ascii " emoji
+T ,
+    },
+    uint8x { //	t
+int64 As`line1
+line2` ,	zchar[
+007 ]
+    //x
+    Pad // a // b
+`u8 x,`, repeat  trueish
+    // trailing space 
+    { repeat  char[ 1
+    ]
+i8i8 `crlf
+line` ,string_ metadata
+    `` , // a // b
+zchar ,	i8i8
+    int
+    `" ++ [28040; 24687; 31867; 22411]%N ++ runes_of_ascii "` ,} // " ++ [128512]%N ++ runes_of_ascii " emoji
+,
+} , },
+    @calculatedFrom( """"
+    // `tick` ""quote"" 'q'
+    ) zchar[
+007 ]o , } // trailing space 
+packet
+a1
+{
+i16 A @calculatedFrom( ""\" ++ [233]%N ++ runes_of_ascii """
+    // trailing space 
+    ) `line1
+line2` ,@leftPad( ) @tag( 7	) pack
+{ repeat As ,
+} , // c
+}")).
+Eval vm_compute in ("<<<M619>>>" ++ check (runes_of_ascii "  root packet repeatCount { @tag(10 )char[]
+options1 @calculatedFrom(// a // b
+""abc"" ) ,
+    repeat float32 trueish, int16 x`{ , }`  , }  packet o { char[ 007
+/// triple
+// packet A { u8 x, }
+] falsey `a\`, repeat float crc , match i64_ as roots // packet A { u8 x, }
+{ [ 4294967296 ,
+""// no comment""  ] : u8x ,	}
+    //x
+    , @rightPad(
+    '0' ) @leftPad ( ) char[] msg_type @calculatedFrom(
+""" ++ [233]%N ++ runes_of_ascii "t" ++ [233]%N ++ runes_of_ascii """
+    )
+// packet A { u8 x, }
+// " ++ [128512]%N ++ runes_of_ascii " emoji
+, match
+// a // b
+// " ++ [27880; 37322]%N ++ runes_of_ascii "
+tag	as x_y_z { """" :As}, f32 int
+    @calculatedFrom(""\" ++ [233]%N ++ runes_of_ascii """
+) , match u8x // trailing space 
+as repeatCount// c
+{ 42  : // packet A { u8 x, }
+calculatedFrom , [ 1 , 007
+    ] : T  } ,
+@lengthOf(
+Foo )u128
+{ pack
+    @lengthOf(zchar)  `u8 x,` ,}
+,
+i8 u , @lengthOf( Pad) match Header as As { [	00
+    ,
+"""",0123456789 , ""\n"" , 42 ]
+    // " ++ [128512]%N ++ runes_of_ascii " emoji
+    :repeatCount }, }
+")).
+Eval vm_compute in ("<<<M3528>>>" ++ check (runes_of_ascii "options {
+    LittleEndian = true;
+    StringPrefixLenType = u64;
+    ArrayPrefixLenType = u8;
+    FixedStringPadChar = '0';
 }
-
+packet Reject {
+    i32 Ref,
+    repeat f64 OrderId,
+    repeat InNote12 {
+        u8 pad0,
+    },
+    @leftPad(' ') char[6] count,
+}
+packet Logout {
+    zchar[6] Tail,
+    repeat string venue,
+}
+packet Cancel {
+    u64 count,
+    repeat char[5] lastPx,
+    i64 Tail,
+    repeat InF140 {
+        repeat Logout,
+        repeat Reject,
+    },
+}
+root packet Trade {
+    repeat InMsgkind39 {
+        repeat Reject,
+        char[4] Px,
+    },
+    string Acct,
+    uint16 price,
+    f32 OrderId,
+    u16 x,
+    u16 clOrdID @lengthOf(Body),
+    match x as Body {
+        178 : Logout,
+        13 : Cancel,
+        174 : Reject,
+    },
+    u16 Flags @calculatedFrom(""CR\
+C32""),
+}
+")).
+Eval vm_compute in ("<<<M1244>>>" ++ check (runes_of_ascii "// packet A { u8 x, }
 options {
-    body = char[];// @lengthOf(
-    repeatCount = true;
-    packetx = ""a\""b"";
-    float = ""x y"";
-    zchar = ""\" ++ [233]%N ++ runes_of_ascii """;
+As = ""// no comment"";
+    } options //x
+{
+    string_ = float32
+int =
+'\x00' body
+=// " ++ [27880; 37322]%N ++ runes_of_ascii "
+zchar[ 1//
+]
+    }
+    MetaData
+    trueish {char A , tag falsey `line1
+line2` ,
+    float32
+crc `{ , }` ,	float32 rootA `
+` , char[ 1	] As  ,
+body
+    asx ,} root
+packet u8x { zchar[
+0123456789 ] Packet @calculatedFrom(
+    ""it's"" ) ,@leftPad
+    (
+// c
+//	t
+)
+    // `tick` ""quote"" 'q'
+    Logon `" ++ [233]%N ++ runes_of_ascii "`
+    ,	string metadata	`" ++ [28040; 24687; 31867; 22411]%N ++ runes_of_ascii "` ,// trailing space 
+u8x // a // b
+x
+`{ , }` , match string_
+as metadata {	10 : float
+    // c
+    }
+    ,
+    options1
+    @calculatedFrom(""" ++ [28040; 24687]%N ++ runes_of_ascii """
+    )
+,@rightPad ('0' )
+string
+packetx// " ++ [27880; 37322]%N ++ runes_of_ascii "
+,
+char[
+007]
+x_y_z
+    `a\` ,@rightPad ( ' ' ) chars { int32 o// c
+,float @calculatedFrom( ""packet"" )`line1
+line2`, }
+,
 }
-
-MetaData _x {
-    u16 falsey ``,
-}
-
-root packet metadata {
+")).
+Eval vm_compute in ("<<<M3515>>>" ++ check (runes_of_ascii "options { // c1a
+  // c1b
+LittleEndian = // c3a
+  // c3b
+true
+    // c4
+;
+    // c5
+ArrayPrefixLenType // c6a
+  // c6b
+= u64
+    // c8
+; // c9a
+  // c9b
+FixedStringPadFromLeft // c10a
+  // c10b
+= // c11a
+  // c11b
+false // c12
+; } packet
+    // c15
+Quote
+    // c16
+{ } // c18
+root // c19a
+  // c19b
+packet // c20a
+  // c20b
+Order // c21a
+  // c21b
+{
+    // c22
+i64 Side2
+    // c24
+, // c25
+Quote // c26a
+  // c26b
+,
+    // c27
+u32 Px // c29
+, // c30
+match
+    // c31
+Px
+    // c32
+as
+    // c33
+Body { [ // c36
+119
+    // c37
+,
+    // c38
+147 ] : // c41a
+  // c41b
+Quote // c42a
+  // c42b
+, // c43
+} ,
+    // c45
+u16
+    // c46
+Flags // c47a
+  // c47b
+@calculatedFrom( // c48a
+  // c48b
+""CRC32"" ) // c50a
+  // c50b
+,
+    // c51
+} ")).
+Eval vm_compute in ("<<<M3998>>>" ++ check (runes_of_ascii "MetaData stringy {
+    Packet falsey `" ++ [28040; 24687; 31867; 22411]%N ++ runes_of_ascii "`,
 }
 
 packet Foo {
-    repeat u128,
-    @tag(7)
-    uint16 MetaDataX,
-    @tag(1)
-    /// triple
-    falsey `say ""hi""`,
-    @rightPad()
-    @tag(3)
-    u,
-    @lengthOf(roots)
-    match body as repeatCount {
-        ""CRC32"" : asx,
-        42 : msg_type,
-    },// packet A { u8 x, }
-    stringy {
-        repeat char[3] uint8x,
-        match Logon as A {
-            ""abc"" : i8i8,
-        },
-        match BodyLength as len {
-            [0123456789, 007, 4294967296, ""{,}""] : Foo,
-        },
+    @lengthOf(i8i8)
+    zchar[10] chars `{ , }`,
+    @calculatedFrom(""1"")
+    char[007] x,
+    @lengthOf(int)
+    zchar[10] string_ `two words`,
+    repeat repeatCount {
+        u32 len,
+        T rootA,
+        char[7] falsey @lengthOf(crc),
+        // " ++ [128512]%N ++ runes_of_ascii " emoji
+        // packet A { u8 x, }
+        int16 BodyLength,
     },
-    @leftPad('0')
-    uint8x @lengthOf(i8i8),//	t
-    _x {
-        repeat x `line1
+    packetx @lengthOf(u),
+    zchar[3] chars,
+    float32 x_y_z `{ , }`,
+    @calculatedFrom(""1"")
+    uint16 trueish @calculatedFrom(""" ++ [128512]%N ++ runes_of_ascii """) `line1
         line2`,
-    },
-    @tag(42)
-    falsey u128,
-    int64 MetaDataX,
+    Z9_ chars,
+}
+
+root packet crc {
+    char[] T,
+}
+
+MetaData len {
+    uint16 uint8x,
+    f64 string_ `" ++ [28040; 24687; 31867; 22411]%N ++ runes_of_ascii "`,
+    char[] i8i8 `// not a comment`,
 }")).
-Eval vm_compute in ("<<<M17>>>" ++ check (runes_of_ascii "  root
-//
-// `tick` ""quote"" 'q'
-packet lengthOf {repeat char[]asx`// not a comment` // trailing space 
-,	lengthOf{ string options1	, char[] A @calculatedFrom( ""\n"" )
-    ,	int16 trueish , },repeat  int16	stringy  , string Logon `{ , }`
-, @lengthOf(	metadata )
-match trueish	as
-    Foo { 00
-:
-T , 7
-: Z9_ , } ,
-string_ a1
-`" ++ [28040; 24687; 31867; 22411]%N ++ runes_of_ascii "`// packet A { u8 x, }
-, } packet zchar { @calculatedFrom(
-    ""x y"" //x
-) repeatCount`
-`, match
-    //
-    stringy as u {255 // `tick` ""quote"" 'q'
-:charz } , zchar[ 0123456789]
-    // a // b
-    Z9_
-@lengthOf(
-    crc )
-`it's` , @leftPad
-    ( '\x00' )zchar[
-    0 ]rootA @calculatedFrom( ""CRC32"" ) , @lengthOf( leftPad )
-    // packet A { u8 x, }
-    Foo @calculatedFrom(
-""{,}"" ) ,
-uint32 Foo
-`// not a comment` , f32 float , repeat matchKey ,
-Logon @lengthOf(
-    rootA
-) `" ++ [28040; 24687; 31867; 22411]%N ++ runes_of_ascii "` ,
-    }
-")).
-Eval vm_compute in ("<<<M4057>>>" ++ check (runes_of_ascii "root packet As {
-    @tag(4294967296)
-    packetx,
-    @calculatedFrom(""" ++ [128512]%N ++ runes_of_ascii """)
-    i32 crc,
-    @lengthOf(x_y_z)
-    @lengthOf(body)
-    BodyLength {
-        match repeatCount as int {
-            ""\" ++ [233]%N ++ runes_of_ascii """ : body,
-            // packet A { u8 x, }
-            ""// no comment"" : falsey,
-            ""abc"" : tag,
-            ""a	b"" : zchar,
-            // trailing space 
-            007 : Packet,
-        },// " ++ [128512]%N ++ runes_of_ascii " emoji
-    },
-    repeat falsey trueish,
-    @leftPad(' ')
-    @lengthOf(Logon)
-    @leftPad()
-    int @lengthOf(u8x),
-    zchar[007] falsey,
-    @rightPad()
-    float @lengthOf(Logon),
-    @rightPad('\x00')
-    @calculatedFrom(""a	b"")
-    Z9_ u8x,
-    @tag(3)
-    string_ u128,
+Eval vm_compute in ("<<<M4241>>>" ++ check (runes_of_ascii "options {
+    metadata = '0'
+    int = 007;
+    zchar = '\x00';
 }
 
-options {
-    u128 = ""it's"";
-    metadata = ""abc""
-    string_ = true;
-    f32a = true
-}
-
-packet i8i8 {
-}")).
-Eval vm_compute in ("<<<M272>>>" ++ check (runes_of_ascii "root packet Header {
-int16 repeatCount ,
-    } //x
-root packet len {  match i8i8
-    as// c
-roots{ [""abc"" , 255 ]
-    : Pad, }  ,	@rightPad ( '\x00' ) @lengthOf(	leftPad
-)float32 As `" ++ [28040; 24687; 31867; 22411]%N ++ runes_of_ascii "` , @calculatedFrom( ""1""
-) zchar[  007
-] // " ++ [128512]%N ++ runes_of_ascii " emoji
-stringy @lengthOf( f32a ) ,}
-    // @lengthOf(
-    packet  BodyLength{
-@lengthOf( trueish ) char[
-7 ]
-    falsey
-@calculatedFrom( """ ++ [128512]%N ++ runes_of_ascii """ )	, @calculatedFrom(""a\""b""
-) x`// not a comment` , @lengthOf(chars ) char[ 65535 ]leftPad
-@calculatedFrom(""" ++ [128512]%N ++ runes_of_ascii """
-) , trueish ,
-string lengthOf
-    , }root
-    packet
-_x
-{ match _x as
-uint8x
-{// c
-[""`tick`"" ,
-""packet""] :
-u, [// `tick` ""quote"" 'q'
-007 , ""abc""
-,255
-    , ""\n"" , 7 , // c
-""a	b"" , 0
-    ]
-    :
-    // c
-    Foo	[ 007 , """ ++ [233]%N ++ runes_of_ascii "t" ++ [233]%N ++ runes_of_ascii """ , 0 ]
-:
-x_y_z //	t
-} ,
-}
-")).
-Eval vm_compute in ("<<<M840>>>" ++ check (runes_of_ascii "packet a1  { @tag(00 )
-    charz{
-    // @lengthOf(
-    char[ 007 ] i8i8	@calculatedFrom( ""// no comment"" ) ,
-    float {char[  1 ] Packet @lengthOf(len ) `crlf
-line` , }, }	, @rightPad//x
-(' ' ) match x_y_z
-as repeatCount
-    {
-// c
-//	t
-""`tick`""  :
-    pack
-,  ""`tick`"":
-    u ""abc""
-:
-u128, [ """ ++ [233]%N ++ runes_of_ascii "t" ++ [233]%N ++ runes_of_ascii """ , ""x y""
-//
-//	t
-]//	t
-:float
-,
-0123456789
-/// triple
-// a // b
-:calculatedFrom },
-repeat zchar[ 1 //x
-]
-    zchar ,	char[ 255 ]  matchKey , repeat float { match
-chars  as asx {
-[ 0
-,
-0 ,	""""  ] :i64_ 00 : BodyLength  ,
-//
-// " ++ [27880; 37322]%N ++ runes_of_ascii "
-""// no comment""
-:a1 , } , repeat
-    T i64_ ,
-// packet A { u8 x, }
-// c
-repeat char[ 0 ] len ,
-}// " ++ [27880; 37322]%N ++ runes_of_ascii "
-, zchar[42 ] uint8x @calculatedFrom(
-    //	t
-    ""// no comment""
-),}
-")).
-Eval vm_compute in ("<<<M1236>>>" ++ check (runes_of_ascii "MetaData
-o { u128 a1 , _x	trueish `it's`
-,	zchar[
-42]
-    repeatCount,char[] T ,
-    float32 charz ,u16  falsey
-    , }	packet
-    Logon{
-}packet Header
-{ }	root packet
-rootA
-    //
-    {@calculatedFrom( ""{,}""
-)match Logon
-as x
-    //x
-    { 007 /// triple
-:Packet, } ,
-    } root
-packet msg_type { @tag( 42
-) char[] crc , @rightPad( //	t
-) trueish `tab	here`
-,len , As @calculatedFrom(
-""x y"" //
-)
-, @calculatedFrom(
-    //
-    ""`tick`"")
-// `tick` ""quote"" 'q'
-//	t
-@calculatedFrom(	""""
-// packet A { u8 x, }
-//	t
-)@calculatedFrom( ""x y"" )match Packet as
-    /// triple
-    BodyLength{	""\n""
-: u
-    ,
-} ,@calculatedFrom(  """"  ) repeat Logon `// not a comment` , }")).
-Eval vm_compute in ("<<<M333>>>" ++ check (runes_of_ascii "// a // b
-packet matchKey{
-@rightPad( // c
-' ' // trailing space 
-)
-@tag(007) @lengthOf( float )
-repeat	packetx ,
-    // @lengthOf(
-    @calculatedFrom(""a\""b"" )/// triple
-@tag(
-    255 )@tag( 00 )
-    Pad
-    @calculatedFrom(
-""" ++ [28040; 24687]%N ++ runes_of_ascii """ ) `{ , }` , } root
-packet
-string_
-    { repeat Logon
-//
-//x
-{ match Z9_ as float {
-""packet""
-: packetx
-    , [
-""CRC32"" , 42 // a // b
-,	00
-    // `tick` ""quote"" 'q'
-    , ""packet"" //
-] : Foo, """ ++ [28040; 24687]%N ++ runes_of_ascii """ : BodyLength , [
-""CRC32""] : x_y_z	,
-    00 :
-    packetx, 7 : rootA , } ,
-}
-, repeat
-    // c
-    metadata { u16 Logon `
-` ,
-    matchKey @calculatedFrom(
-"""" //	t
-) , repeat// c
-char[]leftPad,
-} , }
-")).
-Eval vm_compute in ("<<<M1095>>>" ++ check (runes_of_ascii "//
-packet
-// @lengthOf(
-// `tick` ""quote"" 'q'
-u8x
-    { repeat int _x`line1
-line2`
-, @lengthOf( rootA  )
-    int16
-leftPad , repeat Logon  _x
-    , } packet float {
-    repeat u8x // " ++ [128512]%N ++ runes_of_ascii " emoji
-{ match asx as asx {	""a\""b""
-    // `tick` ""quote"" 'q'
-    :
-BodyLength , [ 0 ] : len ,
-    //	t
-    """ ++ [28040; 24687]%N ++ runes_of_ascii """ : BodyLength,
-[ 0 // " ++ [128512]%N ++ runes_of_ascii " emoji
-, ""\" ++ [233]%N ++ runes_of_ascii """ ]
-/// triple
-// " ++ [27880; 37322]%N ++ runes_of_ascii "
-:leftPad ,
-    4294967296: T
-// @lengthOf(
-/// triple
-,
-} //	t
-, } , chars {match Pad as zchar // packet A { u8 x, }
-{
-    10 :
-i8i8
-[ 3
-    // a // b
-    ,
-10 ] : u8x
-    , } , zchar[ 4294967296//
-] stringy @calculatedFrom( ""\" ++ [233]%N ++ runes_of_ascii """
-) , } ,
-    //
-    }
-")).
-Eval vm_compute in ("<<<M3487>>>" ++ check (runes_of_ascii "options { // c1a
-  // c1b
-FixedStringPadChar = // c3
-'0'
-    // c4
-; // c5
-} packet
-    // c7
-Q { zchar[ // c10a
-  // c10b
-4 // c11
-] // c12a
-  // c12b
-z ,
-    // c14
-@rightPad // c15
-( // c16
-'\x00' )
-    // c18
-char[ // c19a
-  // c19b
-3 ] // c21
-n
-    // c22
-,
-    // c23
-char[
-    // c24
-5
-    // c25
-] // c26a
-  // c26b
-d , // c28a
-  // c28b
-} // c29a
-  // c29b
-root // c30
-packet // c31
-R // c32
-{ // c33a
-  // c33b
-Q // c34a
-  // c34b
-, zchar[
-    // c36
-8
-    // c37
-] // c38
-top
-    // c39
-, // c40
-repeat // c41
-zchar[ // c42
-2 ] // c44
-zs // c45
-,
-    // c46
-} ")).
-Eval vm_compute in ("<<<M3878>>>" ++ check (runes_of_ascii "
-packet	asx
-    {@lengthOf(	falsey  
-  //	t
-
-  )
-    repeat uint64
-
-charz, 
-repeat	// " ++ [128512]%N ++ runes_of_ascii " emoji
-    	char[]As `it's`, } packet u8x  { @tag(4294967296
-    ) @calculatedFrom( 
-""`tick`""
-	)
-    @calculatedFrom(	""abc"") repeat 	 // @lengthOf(
-i64 options1
-`it's`
-
-,match 
-Logon  as
-o
-
-    {
-    3 
-: Z9_
-3  : 
-T ,
-
-    3  // c
-: 	 // @lengthOf(
-	  u128
-
-    ,
-	4294967296:	Z9_
-,[ """"	,
-10 ]	:
-body  , 
-	    // c
-  """ ++ [233]%N ++ runes_of_ascii "t" ++ [233]%N ++ runes_of_ascii """: string_
-	    //
-	/// triple
-		, },  @tag( 
-7 
-) uint8x	@lengthOf(
-//
-  Foo) , 
-repeat
-T
-    _x 	 //
-    `" ++ [233]%N ++ runes_of_ascii "` ,
-    }")).
-Eval vm_compute in ("<<<M4292>>>" ++ check (runes_of_ascii "
-// top
-    packet	// c0a
-  // c0b
-    A	{  // c2
-u8// c3a
-	// c3b
-  a 
-// c4
-      , // c5
-	} // c6a
-	  // c6b
-	packet
-
-B	// c8a
-  // c8b
-    	{ 
-        // c9
-  u16
-    b // c11
-    , 	 // c12a
-
-	// c12b
-  }	root	// c14
-  packet	// c15
-
-P
-{ 	 // c17
-	u8  // c18a
-// c18b
-    K
-
-,  // c20
-      match// c21
-  K
-
-// c22
-  as 	 // c23
-    M
-    {// c25
-    1 
-	    // c26
-
-  :	// c27a
-    	// c27b
-	A // c28
-    , 1	// c30
-	: B 	 // c32a
-  // c32b
-,// c33a
-    // c33b
-  }// c34
-	, // c35
-  }
-")).
-Eval vm_compute in ("<<<M785>>>" ++ check (runes_of_ascii "packet asx {
-// c
-// " ++ [27880; 37322]%N ++ runes_of_ascii "
-u8 float , //	t
-}
-packet Logon { @tag(10 )@calculatedFrom(// @lengthOf(
-""packet"" ) i64
-    Logon @lengthOf(f32a ) ,zchar[ 1 ]stringy
-    @calculatedFrom(
-    ""// no comment"" )
-    `crlf
-line` ,
-    // @lengthOf(
-    match lengthOf as trueish { 255
-: string_// `tick` ""quote"" 'q'
-,
-// c
-// c
-4294967296: u
-    ,
-    } , @tag( 7 ) tag{ repeat crc, zchar
-    @calculatedFrom( ""\" ++ [233]%N ++ runes_of_ascii """
-)`{ , }` , } , char[] msg_type, repeat string Packet
-    `" ++ [28040; 24687; 31867; 22411]%N ++ runes_of_ascii "`  , }
-//x
-")).
-Eval vm_compute in ("<<<M4217>>>" ++ check (runes_of_ascii "
-
-  MetaData 
-	    // `tick` ""quote"" 'q'
-  	o
-    {i64  crc , }	packet falsey
-
-    { @tag(
-0 )
-zchar
-@calculatedFrom(	""x y""
-), crc // `tick` ""quote"" 'q'
-{
-char[ 7
-	] 
-Packet @lengthOf( asx ), } ,
-@tag(	4294967296
-) @calculatedFrom(
-
-""" ++ [128512]%N ++ runes_of_ascii """
-)x_y_z  trueish
-,@calculatedFrom( ""\n""
-)// c
-	  falsey
-
-Packet
-
-    ,
-float
-    {
-
-T
-
-    o,	zchar[ 4294967296
-
-] chars 
-,
-zchar[
-7  ]
-    options1@calculatedFrom( ""a\\"" 
-)	,
-repeat float32 Pad  ,
-
-} ,
-
-}
-
-")).
-Eval vm_compute in ("<<<M3832>>>" ++ check (runes_of_ascii "
-packet x  {	@leftPad ( 
-) 
-i32 float	,
-    }options {
-
-    chars ='0' ;
-	Header// c
-
-=
-""`tick`"" x
-= 
-      // `tick` ""quote"" 'q'
-  //
-  '\x00'
-    ;
-
-    rootA =
-
-    char[ 65535  ]
-; } options	{ x
-=
-""it's""	asx
-	// " ++ [27880; 37322]%N ++ runes_of_ascii "
-      =char[
-
-007
-]
-;
-    zchar =
-	int8 ; 
-  //	t
-  	// a // b
-	zchar	= true ; chars = char[]
-/// triple
-	// `tick` ""quote"" 'q'
-  }
-options  { 
-o =7
-    Logon	=
-10  /// triple
-body
-=
-	false
-a1 // c
-	= ""x y"" 
-}
-")).
-Eval vm_compute in ("<<<M129>>>" ++ check (runes_of_ascii "root packet options1
-{ @lengthOf(	msg_type ) Logon @lengthOf( packetx )`
-` , As  {
-repeat	T
-`
-`
-    ,float64 Foo	`crlf
-line`
-//x
-// a // b
-,repeat repeatCount x_y_z`a\` ,	int8 msg_type
-,
-    } , // `tick` ""quote"" 'q'
-msg_type @lengthOf( body ) , u64 rootA @calculatedFrom(
-""" ++ [128512]%N ++ runes_of_ascii """
-    ) ,@calculatedFrom(""packet""	) i32
-    Header ,	uint32 BodyLength @lengthOf(
-trueish //x
-)
-, @lengthOf(
-f32a ) f32
-    Z9_ `{ , }`, } // a // b")).
-Eval vm_compute in ("<<<M3649>>>" ++ check (runes_of_ascii "
-
-  MetaData a1 
-{ u128// @lengthOf(
-  As  , char[ 4294967296
-]	lengthOf
-    ,uint64 
-msg_type
-, 
-x_y_z
-f32a
-
-    ,float32
-
-o 	 // " ++ [27880; 37322]%N ++ runes_of_ascii "
-  ,
-} options 
-	    // " ++ [27880; 37322]%N ++ runes_of_ascii "
-	// " ++ [128512]%N ++ runes_of_ascii " emoji
-
-{
-
-//x
-
-// @lengthOf(
-  }	MetaData  string_  {
-}packet	roots  {	repeat f32 As
-	`" ++ [28040; 24687; 31867; 22411]%N ++ runes_of_ascii "`,	}
-    options
-	{ 
-    // " ++ [128512]%N ++ runes_of_ascii " emoji
-	uint8x= ""a	b""	Packet//
-    =
-
-42  ; pack=
-	10
-; tag	=
-string ;	repeatCount
-= 	 // " ++ [27880; 37322]%N ++ runes_of_ascii "
-  char[ 0
-
-    ]  ;
-
-}
-")).
-Eval vm_compute in ("<<<M4032>>>" ++ check (runes_of_ascii "// packet A { u8 x, }
-root packet charz {
-    matchKey {
-        repeat Foo {
-            // trailing space 
-            uint8 chars @lengthOf(x),
-        },
-        pack {
-            rootA @lengthOf(MetaDataX),
-        },
-        roots {
-            zchar[10] leftPad,
-        },
-        repeat pack stringy `two words`,
-    },
-}
-
-packet rootA {
-    char[10] x_y_z `{ , }`,
-    uint64 falsey,
-}")).
-Eval vm_compute in ("<<<M1354>>>" ++ check (runes_of_ascii "root
-packet i8i8 {repeat
-x float
-, @rightPad // c
-( '\x00'
-)As {
-    matchKey `two words` , zchar[ 255// c
-]
-x
-`line1
-line2` ,} ,// c
-}packet metadata {
-    } packet
-    A{ char[
-65535]
-    crc , u64 trueish
-    // `tick` ""quote"" 'q'
-    @lengthOf( o
-)
-,@calculatedFrom( ""// no comment""
-) falsey
-@lengthOf(A  )
-,//x
-@calculatedFrom(
-""CRC32"" ) u8
-    matchKey`tab	here` ,}
-")).
-Eval vm_compute in ("<<<M4092>>>" ++ check (runes_of_ascii "packet pack {
-    @rightPad(' ')
-    A @calculatedFrom(""a\\"") `
-    `,
-    u8 f32a,
-    zchar[007] rootA `u8 x,`,
-    repeat string u128 `u8 x,`,
-    @leftPad(' ')
-    char[1] repeatCount @calculatedFrom(""\n"") `doc`,
-    o,
-    falsey leftPad,
-    @calculatedFrom(""a\""b"")
+packet charz {
     @leftPad('0')
-    //
-    // " ++ [27880; 37322]%N ++ runes_of_ascii "
-    roots {
-        u8 zchar @lengthOf(Logon),
-    },
-}")).
-Eval vm_compute in ("<<<M3991>>>" ++ check (runes_of_ascii "
-
-  packet
-charz
-{	@lengthOf(
-    Pad  ) match rootA
-as	string_
-    { 
-[
-0123456789 ] 
-// a // b
-    //
-	: repeatCount  [
-	00 ,
-
-""it's""] :
-
-    T
-,
-
-    0 	 // packet A { u8 x, }
-		:stringy
-    , 4294967296
-:  msg_type	,  /// triple
-    } 
-,  }
-
-    packet  lengthOf
-{
-	@tag( 
-7 
-)
-char[	255  ] float
-    @calculatedFrom(
-""packet"")
-, 
-} ")).
-Eval vm_compute in ("<<<M4030>>>" ++ check (runes_of_ascii "packet Pad {
-    @lengthOf(x)
-    match Header as A {
-        """ ++ [128512]%N ++ runes_of_ascii """ : x_y_z,
-        [""" ++ [233]%N ++ runes_of_ascii "t" ++ [233]%N ++ runes_of_ascii """] : body,
-    },
+    @tag(42)
     @calculatedFrom(""a\""b"")
-    float32 uint8x,
-    int16 roots,
-    @calculatedFrom(""abc"")
-    i8 len @lengthOf(x_y_z),
-}
-
-packet chars {
-    string Packet `doc`,
-    rootA {
-        repeat o,
-    },
-    pack stringy `" ++ [28040; 24687; 31867; 22411]%N ++ runes_of_ascii "`,
-}")).
-Eval vm_compute in ("<<<M718>>>" ++ check (runes_of_ascii "packet
-metadata {
-    char[
-    0 ] Z9_
-`line1
-line2` , }
-    root packet
-chars {
-/// triple
-// @lengthOf(
-As { zchar[ 3 ] BodyLength @calculatedFrom( ""it's"") `line1
-line2` ,  }  ,
-} packet o {
-    @rightPad
-// trailing space 
-// trailing space 
-( '\x00' )
-    string
-f32a@calculatedFrom( ""it's"" ) `// not a comment` ,}")).
-Eval vm_compute in ("<<<M4026>>>" ++ check (runes_of_ascii "packet Pad {
-    int16 charz ``,
-    @calculatedFrom(""a\""b"")
-    @tag(1)
-    zchar[4294967296] A,
-    @rightPad()
-    chars,// " ++ [27880; 37322]%N ++ runes_of_ascii "
-    uint8x {
-        zchar[0] zchar `tab	here`,
-        msg_type f32a,
-        u8 roots @calculatedFrom(""x y"") `crlf
-                line`,/// triple
-        As rootA,
-    },
-}")).
-Eval vm_compute in ("<<<M1415>>>" ++ check (runes_of_ascii "root packet packet Foo // " ++ [128512]%N ++ runes_of_ascii " emoji
-{ } options {
-    // a // b
-    tag // `tick` ""quote"" 'q'
-= //	t
-""""
-    ; u8x = zchar[0  ] }
-MetaData
-    int {zchar[ 10]
-lengthOf	`` , i64 u8x`// not a comment` ,MetaDataX pack// `tick` ""quote"" 'q'
-`crlf
-line`
-, Logon charz `crlf
-line`
-    ,
-    // a // b
-    }
-")).
-Eval vm_compute in ("<<<M1507>>>" ++ check (runes_of_ascii "root packet Foo // " ++ [128512]%N ++ runes_of_ascii " emoji
-{ } options {
-    // a // b
-    tag // `tick` ""quote"" 'q'
-= //	t
-""""
-    ; u8x = zchar[0  ] }
-MetaData
-    int i32 zchar[ 10]
-lengthOf	`` , i64 u8x`// not a comment` ,MetaDataX pack// `tick` ""quote"" 'q'
-`crlf
-line`
-, Logon charz `crlf
-line`
-    ,
-    // a // b
-    }
-")).
-Eval vm_compute in ("<<<M1613>>>" ++ check (runes_of_ascii "root packet Foo // " ++ [128512]%N ++ runes_of_ascii " emoji
-{ } options {
-    // a // b
-    tag // `tick` ""quote"" 'q'
-= //	t
-""""
-    ; u8x = zchar[0  ] }
-MetaData
-    int {zchar[ 10]
-lengthOf	`` , i64 u8x`// not a comment` ,MetaDataX pack// `tick` ""quote"" 'q'
-`crlf
-line`
-, Logon charz `crlf
-line`
-    ,
-    // a // b
-   '' }
-")).
-Eval vm_compute in ("<<<M1471>>>" ++ check (runes_of_ascii "root packet Foo // " ++ [128512]%N ++ runes_of_ascii " emoji
-{ } options {
-    // a // b
-    tag // `tick` ""quote"" 'q'
-= //	t
-""""
-    ; u8x zchar[ =0  ] }
-MetaData
-    int {zchar[ 10]
-lengthOf	`` , i64 u8x`// not a comment` ,MetaDataX pack// `tick` ""quote"" 'q'
-`crlf
-line`
-, Logon charz `crlf
-line`
-    ,
-    // a // b
-    }
-")).
-Eval vm_compute in ("<<<M1449>>>" ++ check (runes_of_ascii "root packet Foo // " ++ [128512]%N ++ runes_of_ascii " emoji
-{ } options {
-    // a // b
-    tag // `tick` ""quote"" 'q'
- //	t
-""""
-    ; u8x = zchar[0  ] }
-MetaData
-    int {zchar[ 10]
-lengthOf	`` , i64 u8x`// not a comment` ,MetaDataX pack// `tick` ""quote"" 'q'
-`crlf
-line`
-, Logon charz `crlf
-line`
-    ,
-    // a // b
-    }
-")).
-Eval vm_compute in ("<<<M1544>>>" ++ check (runes_of_ascii "root packet Foo // " ++ [128512]%N ++ runes_of_ascii " emoji
-{ } options {
-    // a // b
-    tag // `tick` ""quote"" 'q'
-= //	t
-""""
-    ; u8x = zchar[0  ] }
-MetaData
-    int {zchar[ 10]
-lengthOf	`` , i64 `// not a comment` ,MetaDataX pack// `tick` ""quote"" 'q'
-`crlf
-line`
-, Logon charz `crlf
-line`
-    ,
-    // a // b
-    }
-")).
-Eval vm_compute in ("<<<M224>>>" ++ check (runes_of_ascii "packet MetaDataX {	int64 x_y_z //
-@calculatedFrom( ""// no comment""
-// packet A { u8 x, }
-// `tick` ""quote"" 'q'
-)
-, }	MetaData int { u16 // packet A { u8 x, }
-roots , zchar[ 7 // " ++ [27880; 37322]%N ++ runes_of_ascii "
-]u8x ,  int16 //x
-Logon, } MetaData i64_ // a // b
-{// c
-zchar[ 1 ] // `tick` ""quote"" 'q'
-crc	, }
-
-")).
-Eval vm_compute in ("<<<M3776>>>" ++ check (runes_of_ascii "packet stringy {
-    @lengthOf(Packet)
-    lengthOf @calculatedFrom(""it's""),
-}
-
-MetaData x_y_z {
-    asx rootA `it's`,
-    float32 trueish,
-    o Packet,
-}
-
-options {
-    leftPad = true;
-    len = 7;
-    Pad = 42;
-    chars = 65535;
-    A = 4294967296
-}
-
-MetaData int {
-}")).
-Eval vm_compute in ("<<<M711>>>" ++ check (runes_of_ascii "packet
-tag {u32 crc
-    @lengthOf(
-    a1 ) ,	string falsey `say ""hi""`, @tag( 1 )
-    asx
-, }	options { f32a	=true ; zchar
-= '\x00'
-; }packet BodyLength
-//
-// " ++ [128512]%N ++ runes_of_ascii " emoji
-{@tag( 007
-    ) @calculatedFrom( """ ++ [128512]%N ++ runes_of_ascii """ )repeat zchar[
-007 ]
-    packetx ,
-    }
-/// triple
-")).
-Eval vm_compute in ("<<<M982>>>" ++ check (runes_of_ascii "packet	pack{ uint8 metadata`line1
-line2`
-    , @tag(
-    0123456789
-)
-    string matchKey @calculatedFrom( ""`tick`"" ) `" ++ [28040; 24687; 31867; 22411]%N ++ runes_of_ascii "`
-    ,
-@tag( 1 ) // trailing space 
-i8i8 `doc`, o `crlf
-line`  , }MetaData leftPad { f32a
-    int , // packet A { u8 x, }
-}
-
-")).
-Eval vm_compute in ("<<<M1151>>>" ++ check (runes_of_ascii "packet a1{
-@calculatedFrom(""// no comment"")
-repeat
-f32a { body// `tick` ""quote"" 'q'
-`// not a comment`,  } , o @calculatedFrom(""a	b""
-)
-    //	t
-    `line1
-line2`
-, @calculatedFrom(""`tick`""
-) repeat	tag	,
-// @lengthOf(
-// " ++ [128512]%N ++ runes_of_ascii " emoji
-}
-// c
-")).
-Eval vm_compute in ("<<<M3577>>>" ++ check (runes_of_ascii "packet BodyLength {
-    repeat char[1] options1 `it's`,
-    x_y_z {
-        packetx @lengthOf(zchar) `tab	here`,
-        repeat _x a1,
-    },
-}
-
-packet roots {
-}
-
-options {
-    Foo = char[1];
-    charz = 1;
-    Packet = ""`tick`""
-}")).
-Eval vm_compute in ("<<<M1388>>>" ++ check (runes_of_ascii "options{ roots =0123456789; body = int64
-repeatCount = ""// no comment""
-; pack  =
-""abc""
-    ;charz =// " ++ [27880; 37322]%N ++ runes_of_ascii "
-string ;
-/// triple
-// " ++ [128512]%N ++ runes_of_ascii " emoji
-}
-packet //
-trueish{ @calculatedFrom( ""a	b""	) repeat u16 As
-    `" ++ [233]%N ++ runes_of_ascii "` // " ++ [128512]%N ++ runes_of_ascii " emoji
-, }
-")).
-Eval vm_compute in ("<<<M2223>>>" ++ check (runes_of_ascii "MetaData Packet @tag( }packet	asx  { @lengthOf( asx) falsey`crlf
-line`
-,
-    }
-    packet x	{uint32// @lengthOf(
-rootA	,u32 options1 `say ""hi""` , @tag( 7
-    )// packet A { u8 x, }
-msg_type @lengthOf(
-stringy	)	, }
-
-")).
-Eval vm_compute in ("<<<M2384>>>" ++ check (runes_of_ascii "MetaData Packet { }packet	asx  { @lengthOf( asx) falsey`crlf
-line`
-,
-    }
-    packet x	{uint32// @lengthOf(
-rootA	,u32 options1 `say ""hi""` , @tag( 7
-    )// packet A { ''u8 x, }
-msg_type @lengthOf(
-stringy	)	, }
-
-")).
-Eval vm_compute in ("<<<M2267>>>" ++ check (runes_of_ascii "MetaData Packet { }packet	asx  { @lengthOf( asx) falsey,
-`crlf
-line`
-    }
-    packet x	{uint32// @lengthOf(
-rootA	,u32 options1 `say ""hi""` , @tag( 7
-    )// packet A { u8 x, }
-msg_type @lengthOf(
-stringy	)	, }
-
-")).
-Eval vm_compute in ("<<<M2285>>>" ++ check (runes_of_ascii "MetaData Packet { }packet	asx  { @lengthOf( asx) falsey`crlf
-line`
-,
-    }
-    packet 	{uint32// @lengthOf(
-rootA	,u32 options1 `say ""hi""` , @tag( 7
-    )// packet A { u8 x, }
-msg_type @lengthOf(
-stringy	)	, }
-
-")).
-Eval vm_compute in ("<<<M27>>>" ++ check (runes_of_ascii "packet
-    MetaDataX {
-    match Header as // a // b
-zchar { 0
-: pack	[ 42
-// packet A { u8 x, }
-// c
-,	65535 ]
-:
-crc } , // @lengthOf(
-@tag(
-    1 )@rightPad (' ' // " ++ [27880; 37322]%N ++ runes_of_ascii "
-)
-int64  Foo, } // packet A { u8 x, }")).
-Eval vm_compute in ("<<<M2248>>>" ++ check (runes_of_ascii "MetaData Packet { }packet	asx  { ; asx) falsey`crlf
-line`
-,
-    }
-    packet x	{uint32// @lengthOf(
-rootA	,u32 options1 `say ""hi""` , @tag( 7
-    )// packet A { u8 x, }
-msg_type @lengthOf(
-stringy	)	, }
-
-")).
-Eval vm_compute in ("<<<M3996>>>" ++ check (runes_of_ascii "  MetaData
-    roots {}MetaData  stringy
-{Logon
-    leftPad 	 // " ++ [27880; 37322]%N ++ runes_of_ascii "
-`crlf
-line` ,char[] 
-metadata  `{ , }`
-	,
-    falsey
-
-pack	`" ++ [233]%N ++ runes_of_ascii "`,
-    i8 repeatCount// " ++ [27880; 37322]%N ++ runes_of_ascii "
-
-,  }  options
-{
-    matchKey 
-=	' '
-	}
-
-")).
-Eval vm_compute in ("<<<M3431>>>" ++ check (runes_of_ascii "// top
-root // c0
-packet // c1
-P
-    // c2
-{ hdr
-    // c4
-{ // c5
-u8 // c6
-a
-    // c7
-, // c8a
-  // c8b
-} // c9a
-  // c9b
-, // c10
-u8 // c11a
-  // c11b
-x // c12a
-  // c12b
-, // c13
-} // c14
-")).
-Eval vm_compute in ("<<<M3761>>>" ++ check (runes_of_ascii "packet a1 {
-}
-
-root packet float {
-    char[] pack,
-    @tag(65535)
-    u16 string_,
-    repeat rootA {
-        // `tick` ""quote"" 'q'
-        //x
-        repeat asx charz `a\`,
-    },
-}")).
-Eval vm_compute in ("<<<M351>>>" ++ check (runes_of_ascii "root packet
-stringy { charz T// " ++ [128512]%N ++ runes_of_ascii " emoji
-`u8 x,` ,	char tag , uint64 u128 ,}
-options { x
-=
-    '0' // `tick` ""quote"" 'q'
-rootA =""CRC32"" ; // " ++ [27880; 37322]%N ++ runes_of_ascii "
-i64_=""a\\"" ; } options{
-}
-// " ++ [27880; 37322]%N ++ runes_of_ascii "
-")).
-Eval vm_compute in ("<<<M77>>>" ++ check (runes_of_ascii "MetaData o
-    { char[] i64_
-`{ , }`	, u16 tag  ,
-char[]
-lengthOf	`u8 x,` , Z9_  rootA`
-`,
-zchar[	3 // trailing space 
-] u, // " ++ [27880; 37322]%N ++ runes_of_ascii "
-float T
-//	t
-//	t
-`{ , }`
-    , }
-")).
-Eval vm_compute in ("<<<M4130>>>" ++ check (runes_of_ascii "MetaData pack {
-    Header len,
-}
-
-packet i8i8 {
-    pack @lengthOf(int),
-}
-
-root packet MetaDataX {
-    char[007] metadata,
-}
-
-MetaData MetaDataX {
-    int o,
-}")).
-Eval vm_compute in ("<<<M1248>>>" ++ check (runes_of_ascii "MetaData u128{ zchar asx
-    /// triple
-    , As chars`" ++ [28040; 24687; 31867; 22411]%N ++ runes_of_ascii "`,
-    char[]repeatCount
-    `doc` , u64 body , string Packet `say ""hi""` ,	body MetaDataX , }
-")).
-Eval vm_compute in ("<<<M775>>>" ++ check (runes_of_ascii "packet
-Logon
-    { // " ++ [27880; 37322]%N ++ runes_of_ascii "
-repeat MetaDataX { /// triple
-MetaDataX @lengthOf(// @lengthOf(
-matchKey ), } , @lengthOf(len) repeat zchar[00	]u8x , }
-")).
-Eval vm_compute in ("<<<M4362>>>" ++ check (runes_of_ascii "options {
-    chars = ""abc"";
-}
-
-packet string_ {
-    uint8x x_y_z,
-    string Header `
+    char[] packetx @calculatedFrom(""\" ++ [233]%N ++ runes_of_ascii """) `
     `,
+    match charz as msg_type {
+        //
+        // trailing space 
+        4294967296 : o,
+        0123456789 : trueish,
+        ""// no comment"" : asx,
+        //x
+        [
+            65535, 65535, 3, ""a\""b"", ""a\\"",
+            """ ++ [28040; 24687]%N ++ runes_of_ascii """, 0123456789, ""a	b""
+        ] : T,
+    },
+    @rightPad(' ')
+    crc,
+    repeat char[] stringy `a\`,
+}
+
+// " ++ [128512]%N ++ runes_of_ascii " emoji
+// " ++ [128512]%N ++ runes_of_ascii " emoji
+MetaData tag {
+    uint64 metadata,
+    int64 trueish `{ , }`,
+    uint32 a1,
+    f32 Packet `// not a comment`,
+}")).
+Eval vm_compute in ("<<<M3915>>>" ++ check (runes_of_ascii "// packet A { u8 x, }
+MetaData f32a {
+    int64 i8i8,
+    u64 Packet ``,
+    falsey _x,// trailing space 
+    tag roots ``,
+    uint32 Foo `two words`,
+    char[] asx,
+}
+
+packet options1 {
+    char[00] u128,
+    //x
+    // a // b
+    @calculatedFrom(""`tick`"")
+    Header @calculatedFrom(""1""),
+    @leftPad()
+    match u as o {
+        [""a\\""] : stringy,
+        ""abc"" : f32a,
+    },
+    f64 x_y_z @lengthOf(o),
+    repeat char[00] int `
+        `,
+    char[] options1 `{ , }`,// `tick` ""quote"" 'q'
+    zchar[00] charz,
+    char[] MetaDataX `a\`,
+    match packetx as zchar {
+        [10, 1] : i8i8,
+        ""CRC32"" : Logon,
+    },
+}
+//	t")).
+Eval vm_compute in ("<<<M4247>>>" ++ check (runes_of_ascii "
+options {
+	zchar
+    = 
+false
+
+;Packet
+    =""`tick`"" 
+;a1  =
+    // c
+
+char[]
+; 
+Packet =
+
+0123456789
+    ;}packet msg_type
+{	/// triple
+  @lengthOf( u128
+	)body	@lengthOf(
+len  )
+
+    ,
+
+@calculatedFrom(
+""CRC32""
+    )zchar[ 
+    /// triple
+
+	007  ]	// packet A { u8 x, }
+
+repeatCount
+
+@lengthOf(
+    Foo  )
+
+    `it's`, i16
+leftPad
+	@calculatedFrom( ""a\\"" ) 
+`u8 x,`
+
+    ,
+    /// triple
+
+  float
+	,
+@lengthOf(
+	a1
+    )
+
+    As@lengthOf( rootA  )`doc` // @lengthOf(
+, 	 // " ++ [128512]%N ++ runes_of_ascii " emoji
+  	f32
+
+    o @calculatedFrom(""a	b"" ) `tab	here` 
+,
+} options
+	// @lengthOf(
+    // " ++ [27880; 37322]%N ++ runes_of_ascii "
+    {
+} options {
+} ")).
+Eval vm_compute in ("<<<M3555>>>" ++ check (runes_of_ascii "// top
+packet
+    // c0
+Sub { u8
+    // c3
+a // c4a
+  // c4b
+,
+    // c5
+@calculatedFrom( // c6
+""CRC16"" // c7
+) // c8a
+  // c8b
+i16 // c9a
+  // c9b
+SubSum
+    // c10
+, } // c12
+root packet
+    // c14
+Frame { // c16a
+  // c16b
+u16 // c17a
+  // c17b
+MsgType , u16
+    // c20
+BodyLen @lengthOf(
+    // c22
+Body // c23a
+  // c23b
+) // c24a
+  // c24b
+, Sub // c26a
+  // c26b
+Body // c27
+,
+    // c28
+string note // c30
+, @calculatedFrom( // c32
+""CRC16"" // c33
+) // c34a
+  // c34b
+i16 // c35a
+  // c35b
+Checksum // c36a
+  // c36b
+, u8 tail // c39
+, // c40
+} // c41a
+  // c41b
+")).
+Eval vm_compute in ("<<<M4371>>>" ++ check (runes_of_ascii "packet matchKey {
+    @rightPad(' ')
+    @tag(65535)
+    _x @lengthOf(options1) `" ++ [28040; 24687; 31867; 22411]%N ++ runes_of_ascii "`,
+    @lengthOf(o)
+    tag Logon,
 }
 
 packet pack {
-    Z9_ @lengthOf(chars) `" ++ [233]%N ++ runes_of_ascii "`,
+    @tag(7)
+    zchar[0] u @calculatedFrom(""\n"") `a\`,
+    repeat stringy,
+    repeat i8i8 a1,
+    char[0] pack @calculatedFrom(""\n"") `line1
+        line2`,
+}
+
+packet u128 {
+    @lengthOf(metadata)
+    int8 Foo `
+        `,
+    @leftPad('\x00')
+    zchar,
+    len Header,
+    repeat chars ``,
+    f64 trueish @calculatedFrom(""`tick`""),
+    @lengthOf(matchKey)
+    uint32 i8i8,
+    asx int `a\`,
 }")).
-Eval vm_compute in ("<<<M4430>>>" ++ check (runes_of_ascii "  packet f32a
-    {i16
+Eval vm_compute in ("<<<M1089>>>" ++ check (runes_of_ascii "options
+{ u128// trailing space 
+=i8  T = float64
+    body =	char[ 0123456789 ] ;i8i8 = uint64	; }
+root packet calculatedFrom{
+    zchar[
+0123456789 ] As  @calculatedFrom(
+""" ++ [28040; 24687]%N ++ runes_of_ascii """ ) , // " ++ [128512]%N ++ runes_of_ascii " emoji
+@calculatedFrom( """ ++ [233]%N ++ runes_of_ascii "t" ++ [233]%N ++ runes_of_ascii """ ) repeat
+    Logon{ string
+    matchKey	@lengthOf( i8i8
+// `tick` ""quote"" 'q'
+// `tick` ""quote"" 'q'
+)
+    ,
+    repeat
+    i64_ ,
+} // a // b
+,repeat
+    uint8 u8x `a\`
+,
+char[ 255] pack
+    ,} MetaData options1 {
+string Pad `{ , }`
+, Header _x , u16 repeatCount// a // b
+`u8 x,`
+, }
+")).
+Eval vm_compute in ("<<<M3908>>>" ++ check (runes_of_ascii "
+packet // " ++ [27880; 37322]%N ++ runes_of_ascii "
+    	u8x  {u64 
+metadata `a\`,
+@tag(65535) @rightPad  (
+)  repeat 
+int16
+As  ,
 
-    uint8x@lengthOf(
+    @rightPad (
+)
+	match lengthOf
+    as 
+body
+	{ 
+7 : 
+	    // @lengthOf(
+// @lengthOf(
+    	chars  ,[
 
-    a1
-	)	, 
+255,
+	""// no comment""
+
+,
+    //x
+	0123456789,
+""\n"", 7
+	,
+
+    ""a	b"" ]
+:	x_y_z
+
+,
+	""abc""
+:
+
+    metadata
+
+    }
+
+    ,} packet  lengthOf{char[]  // " ++ [128512]%N ++ runes_of_ascii " emoji
+    As @calculatedFrom(
+""a\\""
+	) 
+        // " ++ [128512]%N ++ runes_of_ascii " emoji
+  // `tick` ""quote"" 'q'
+`a\` 
+	    //
+	, } 
+    // c
+ 
+")).
+Eval vm_compute in ("<<<M3805>>>" ++ check (runes_of_ascii "packet f32a {
+}
+
+packet trueish {
+    @rightPad()
+    rootA @lengthOf(Pad),
+    @tag(0)
+    Logon @lengthOf(trueish),
+    As `
+    `,
+    repeat int8 Logon,
+    @tag(255)
+    // `tick` ""quote"" 'q'
+    char A,
+    i64 Header,
+    match Z9_ as falsey {
+        65535 : x_y_z,
+        ""CRC32"" : float,
+    },
+    i8 len,
+    @tag(7)
+    // `tick` ""quote"" 'q'
+    repeat rootA x_y_z,
+    @tag(00)
+    zchar[007] x_y_z `a\`,
+}
+
+MetaData roots {
+}// `tick` ""quote"" 'q'")).
+Eval vm_compute in ("<<<M981>>>" ++ check (runes_of_ascii "packet
+    BodyLength
+    //x
+    {
+//	t
+//	t
+@lengthOf( tag)
+    // " ++ [27880; 37322]%N ++ runes_of_ascii "
+    len `{ , }`,
+    @calculatedFrom(
+""\n"" )
+    zchar[ 00]
+i64_, repeat
+A{ char rootA , MetaDataX
+    @calculatedFrom(
+    ""\" ++ [233]%N ++ runes_of_ascii """
+    ) , }//x
+, } packet	Packet
+    {	uint64 Packet @calculatedFrom( /// triple
+""" ++ [28040; 24687]%N ++ runes_of_ascii """ )
+,
+char[007
+// " ++ [128512]%N ++ runes_of_ascii " emoji
+// a // b
+]
+x ,float64 uint8x // " ++ [128512]%N ++ runes_of_ascii " emoji
+@calculatedFrom(
+// " ++ [27880; 37322]%N ++ runes_of_ascii "
+// a // b
+""" ++ [233]%N ++ runes_of_ascii "t" ++ [233]%N ++ runes_of_ascii """ )  , } packet
+    float
+    {u128
+    , } // @lengthOf(")).
+Eval vm_compute in ("<<<M4131>>>" ++ check (runes_of_ascii "MetaData uint8x {
+    _x stringy,
+    i8i8 _x,
+    char[1] a1 `it's`,
+    crc metadata,
+}
+
+packet Logon {
     /// triple
-@lengthOf(
-    body
-)u64 
-u
-,  // packet A { u8 x, }
+    repeat Logon stringy,
+    match falsey as T {
+        [1] : packetx,
+        65535 : pack,
+        [""" ++ [28040; 24687]%N ++ runes_of_ascii """, ""abc""] : metadata,
+    },
+    @calculatedFrom(""x y"")
+    repeat len {
+        lengthOf @calculatedFrom(""`tick`""),
+        u8x msg_type,
+    },
+    @calculatedFrom(""\n"")
+    repeat i64 BodyLength,
+}")).
+Eval vm_compute in ("<<<M3547>>>" ++ check (runes_of_ascii "options {
+    LittleEndian = false;
+    StringPrefixLenType = u8;
+    ArrayPrefixLenType = u16;
+    FixedStringPadFromLeft = false;
+}
+packet Heartbeat {
+    u8 seqNo,
+    @rightPad('\x00') char[8] x,
+}
+root packet Trade {
+    repeat Heartbeat,
+    float32 OrderId,
+    i64 Acct,
+    u16 Qty,
+    u16 clOrdID,
+    match clOrdID as Body {
+        131 : Heartbeat,
+    },
+    u16 sym @calculatedFrom(""CR\
+C32""),
+}
+")).
+Eval vm_compute in ("<<<M818>>>" ++ check (runes_of_ascii "packet	lengthOf
+{@calculatedFrom( ""a	b"" )
+    char[]charz @calculatedFrom(	""`tick`"")
+    `{ , }`
+, } MetaData lengthOf {}  options
+    { o =
+    char[];
+// `tick` ""quote"" 'q'
+// trailing space 
+}	packet o
+{repeat repeatCount {repeat
+    i8 Header `tab	here`
+    ,
+//
+// packet A { u8 x, }
+x_y_z rootA
+`doc` , }, zchar[  65535
+] _x `
+` , @leftPad (
+    '\x00'
+) i32  options1 `crlf
+line`
+, }")).
+Eval vm_compute in ("<<<M893>>>" ++ check (runes_of_ascii "
+packet repeatCount{}packet pack
+{ _x @lengthOf(Pad )	, } options // c
+{ // " ++ [128512]%N ++ runes_of_ascii " emoji
+Foo=
+255 ;
+    // trailing space 
+    }packet tag { @tag( 0123456789 ) @calculatedFrom(// `tick` ""quote"" 'q'
+""a\""b"" )uint32 a1 ,repeat string_ {  zchar[ 255 ]T , // @lengthOf(
+},
+    @rightPad(
+) roots@lengthOf( trueish ) `// not a comment` ,	float // c
+, uint8x lengthOf	`two words`,}
+")).
+Eval vm_compute in ("<<<M3437>>>" ++ check (runes_of_ascii "packet B // c1
+{ // c2
+u8 // c3a
+  // c3b
+a // c4
+,
+    // c5
+} // c6a
+  // c6b
+root
+    // c7
+packet
+    // c8
+P // c9
+{ // c10a
+  // c10b
+u8 // c11
+K // c12a
+  // c12b
+, // c13a
+  // c13b
+u64 // c14
+L @lengthOf( Body // c17a
+  // c17b
+) // c18
+,
+    // c19
+match // c20a
+  // c20b
+K as // c22
+Body // c23
+{
+    // c24
+1 // c25
+: // c26
+B // c27
+, } , } // c31
+")).
+Eval vm_compute in ("<<<M858>>>" ++ check (runes_of_ascii "
+root packet f32a {	@leftPad
+( '0' ) @tag( 00 )
+@rightPad( '0'
+)falsey tag//x
+, /// triple
+float32 packetx`tab	here`
+    , Pad
+    , @tag( 255
+)
+    char[]T`" ++ [28040; 24687; 31867; 22411]%N ++ runes_of_ascii "` , repeat char[ 4294967296  ]
+    Logon  , repeat zchar[ // @lengthOf(
+007 ]x
+`
+`
+    //	t
+    ,
+uint64 uint8x `two words`
+,
+    Z9_ @lengthOf( f32a  )
+,	} // packet A { u8 x, }")).
+Eval vm_compute in ("<<<M4290>>>" ++ check (runes_of_ascii "
+root 
+packet
+packetx
+{uint32 
+x_y_z
+	@calculatedFrom(	""" ++ [233]%N ++ runes_of_ascii "t" ++ [233]%N ++ runes_of_ascii """	) , @calculatedFrom(
+""{,}""// trailing space 
+  )float
 
-	}
+    calculatedFrom`line1
+line2`
+	,
+	u16
+	Packet@lengthOf(f32a 
+)
+    ,	char[] 
+o
+
+`tab	here`
+	,
+@calculatedFrom(
+	""x y""	)
+    T { 
+repeat  i64
+    chars,
+
+    }
+	,
+    i16
+
+roots
+
+    ,
+
+} 	 // @lengthOf(")).
+Eval vm_compute in ("<<<M4270>>>" ++ check (runes_of_ascii "MetaData metadata {
+    char[3] roots,
+    As zchar,
+    u msg_type `say ""hi""`,
+    float32 options1 ``,
+    char[] packetx,
+}
+
+root packet f32a {
+    char[] MetaDataX `{ , }`,
+}
+
+/// triple
+// c
+packet _x {
+    @lengthOf(A)
+    i64 x,
+    int @lengthOf(MetaDataX),
+    repeat BodyLength {
+        f32 lengthOf,
+    },
+}")).
+Eval vm_compute in ("<<<M1590>>>" ++ check (runes_of_ascii "root packet Foo // " ++ [128512]%N ++ runes_of_ascii " emoji
+{ } options {
+    // a // b
+    tag // `tick` ""quote"" 'q'
+= //	t
+""""
+    ; u8x = zchar[0  ] }
+MetaData
+    int {zchar[ 10]
+lengthOf	`` , i64 u8x`// not a comment` ,MetaDataX pack// `tick` ""quote"" 'q'
+`crlf
+line`
+, Logon charz `crlf
+line` `crlf
+line`
+    ,
+    // a // b
+    }
+")).
+Eval vm_compute in ("<<<M1472>>>" ++ check (runes_of_ascii "root packet Foo // " ++ [128512]%N ++ runes_of_ascii " emoji
+{ } options {
+    // a // b
+    tag // `tick` ""quote"" 'q'
+= //	t
+""""
+    ; u8x packet zchar[0  ] }
+MetaData
+    int {zchar[ 10]
+lengthOf	`` , i64 u8x`// not a comment` ,MetaDataX pack// `tick` ""quote"" 'q'
+`crlf
+line`
+, Logon charz `crlf
+line`
+    ,
+    // a // b
+    }
+")).
+Eval vm_compute in ("<<<M1427>>>" ++ check (runes_of_ascii "root packet Foo // " ++ [128512]%N ++ runes_of_ascii " emoji
+f32 } options {
+    // a // b
+    tag // `tick` ""quote"" 'q'
+= //	t
+""""
+    ; u8x = zchar[0  ] }
+MetaData
+    int {zchar[ 10]
+lengthOf	`` , i64 u8x`// not a comment` ,MetaDataX pack// `tick` ""quote"" 'q'
+`crlf
+line`
+, Logon charz `crlf
+line`
+    ,
+    // a // b
+    }
+")).
+Eval vm_compute in ("<<<M1614>>>" ++ check (runes_of_ascii "root packet Foo // " ++ [128512]%N ++ runes_of_ascii " emoji
+{ } options {
+    // a // b
+    tag // `tick` ""quote"" 'q'
+= //	t
+""""
+    ; u8x = zchar[0  ] }
+~MetaData
+    int {zchar[ 10]
+lengthOf	`` , i64 u8x`// not a comment` ,MetaDataX pack// `tick` ""quote"" 'q'
+`crlf
+line`
+, Logon charz `crlf
+line`
+    ,
+    // a // b
+    }
+")).
+Eval vm_compute in ("<<<M1537>>>" ++ check (runes_of_ascii "root packet Foo // " ++ [128512]%N ++ runes_of_ascii " emoji
+{ } options {
+    // a // b
+    tag // `tick` ""quote"" 'q'
+= //	t
+""""
+    ; u8x = zchar[0  ] }
+MetaData
+    int {zchar[ 10]
+lengthOf	`` : i64 u8x`// not a comment` ,MetaDataX pack// `tick` ""quote"" 'q'
+`crlf
+line`
+, Logon charz `crlf
+line`
+    ,
+    // a // b
+    }
+")).
+Eval vm_compute in ("<<<M1554>>>" ++ check (runes_of_ascii "root packet Foo // " ++ [128512]%N ++ runes_of_ascii " emoji
+{ } options {
+    // a // b
+    tag // `tick` ""quote"" 'q'
+= //	t
+""""
+    ; u8x = zchar[0  ] }
+MetaData
+    int {zchar[ 10]
+lengthOf	`` , i64 u8x`// not a comment` MetaDataX pack// `tick` ""quote"" 'q'
+`crlf
+line`
+, Logon charz `crlf
+line`
+    ,
+    // a // b
+    }
+")).
+Eval vm_compute in ("<<<M1564>>>" ++ check (runes_of_ascii "root packet Foo // " ++ [128512]%N ++ runes_of_ascii " emoji
+{ } options {
+    // a // b
+    tag // `tick` ""quote"" 'q'
+= //	t
+""""
+    ; u8x = zchar[0  ] }
+MetaData
+    int {zchar[ 10]
+lengthOf	`` , i64 u8x`// not a comment` ,MetaDataX // `tick` ""quote"" 'q'
+`crlf
+line`
+, Logon charz `crlf
+line`
+    ,
+    // a // b
+    }
+")).
+Eval vm_compute in ("<<<M1075>>>" ++ check (runes_of_ascii "
+root packet u  {@rightPad('\x00')
+Logon @calculatedFrom( ""{,}"" ) `" ++ [233]%N ++ runes_of_ascii "` , @tag(3	) string repeatCount ,match packetx // " ++ [128512]%N ++ runes_of_ascii " emoji
+as u8x  {
+65535 :i8i8
+    //x
+    , 007 // trailing space 
+:roots // " ++ [27880; 37322]%N ++ runes_of_ascii "
+,""a	b"" : BodyLength //	t
+,
+} ,
+@tag( 00 ) uint32
+repeatCount @lengthOf( u128) , }")).
+Eval vm_compute in ("<<<M264>>>" ++ check (runes_of_ascii "
+packet tag { char[]i64_
+    `crlf
+line`, @tag(4294967296	)
+repeat // c
+f32a { char[]
+u8x @lengthOf( Foo)
+    `{ , }` ,
+match
+Foo // " ++ [128512]%N ++ runes_of_ascii " emoji
+as
+packetx {255 : uint8x [	""\" ++ [233]%N ++ runes_of_ascii """ ]
+: matchKey ,} ,	},
+As @calculatedFrom( ""a	b"" )
+`doc`, char[] BodyLength `two words`	, }
+")).
+Eval vm_compute in ("<<<M3452>>>" ++ check (runes_of_ascii "// top
+options // c0a
+  // c0b
+{ LittleEndian = // c3a
+  // c3b
+true ; // c5a
+  // c5b
+} // c6
+root
+    // c7
+packet P
+    // c9
+{ u16
+    // c11
+a , u32 // c14a
+  // c14b
+Sum @calculatedFrom( // c16a
+  // c16b
+""CRC32"" // c17
+) , // c19
+} // c20a
+  // c20b
+")).
+Eval vm_compute in ("<<<M714>>>" ++ check (runes_of_ascii "root packet  u128 {	} root packet x_y_z
+{ @tag( 10	)//x
+repeat
+    char[]
+roots
+,
+    @calculatedFrom( ""it's""	) zchar[ 00]
+trueish`a\` ,zchar[ 10]
+crc @calculatedFrom(""// no comment""
+    ),
+    float32
+    BodyLength @calculatedFrom(  ""\n"" )
+, }
+")).
+Eval vm_compute in ("<<<M3478>>>" ++ check (runes_of_ascii "packet order_item // c1a
+  // c1b
+{ u8 // c3
+a
+    // c4
+, } // c6a
+  // c6b
+root // c7a
+  // c7b
+packet // c8a
+  // c8b
+new_order {
+    // c10
+order_item // c11
+, // c12a
+  // c12b
+u8
+    // c13
+x
+    // c14
+, // c15
+} // c16a
+  // c16b
+")).
+Eval vm_compute in ("<<<M2266>>>" ++ check (runes_of_ascii "MetaData Packet { }packet	asx  { @lengthOf( asx) falsey`crlf
+line` `crlf
+line`
+,
+    }
+    packet x	{uint32// @lengthOf(
+rootA	,u32 options1 `say ""hi""` , @tag( 7
+    )// packet A { u8 x, }
+msg_type @lengthOf(
+stringy	)	, }
 
 ")).
-Eval vm_compute in ("<<<M3903>>>" ++ check (runes_of_ascii "packet A {
+Eval vm_compute in ("<<<M2243>>>" ++ check (runes_of_ascii "MetaData Packet { }packet	asx  @leftPad @lengthOf( asx) falsey`crlf
+line`
+,
+    }
+    packet x	{uint32// @lengthOf(
+rootA	,u32 options1 `say ""hi""` , @tag( 7
+    )// packet A { u8 x, }
+msg_type @lengthOf(
+stringy	)	, }
+
+")).
+Eval vm_compute in ("<<<M1364>>>" ++ check (runes_of_ascii "packet
+MetaDataX {
+    @lengthOf(
+    calculatedFrom // `tick` ""quote"" 'q'
+) repeat char[
+    3 ] lengthOf ,uint32 msg_type//x
+@lengthOf(falsey )
+`
+`
+    , u32 // a // b
+u8x@calculatedFrom(  """ ++ [28040; 24687]%N ++ runes_of_ascii """	)`crlf
+line` , }
+")).
+Eval vm_compute in ("<<<M2386>>>" ++ check (runes_of_ascii "MetaData Packet { }packet	asx  { @lengthOf( asx) falsey`crlf
+line`
+,
+    }
+    pac?ket x	{uint32// @lengthOf(
+rootA	,u32 options1 `say ""hi""` , @tag( 7
+    )// packet A { u8 x, }
+msg_type @lengthOf(
+stringy	)	, }
+
+")).
+Eval vm_compute in ("<<<M2337>>>" ++ check (runes_of_ascii "MetaData Packet { }packet	asx  { @lengthOf( asx) falsey`crlf
+line`
+,
+    }
+    packet x	{uint32// @lengthOf(
+rootA	,u32 options1 `say ""hi""` , @tag( )
+    7// packet A { u8 x, }
+msg_type @lengthOf(
+stringy	)	, }
+
+")).
+Eval vm_compute in ("<<<M251>>>" ++ check (runes_of_ascii "MetaData rootA	{
+roots Header ,} root packet chars{ @tag(  1  )
+repeat char[] stringy `doc` ,}
+    root packet int{ uint8x MetaDataX	, }MetaData Logon {
+x_y_z
+i64_// @lengthOf(
+,Z9_
+_x , body crc `say ""hi""`,
+}
+")).
+Eval vm_compute in ("<<<M4117>>>" ++ check (runes_of_ascii "MetaData Packet {
+}
+
+packet asx {
+    @lengthOf(asx)
+    falsey `crlf
+        line`,
+}
+
+packet x {
+    uint32 rootA,
+    u32 options1,
+    @tag(7)
+    // packet A { u8 x, }
+    msg_type @lengthOf(stringy),
+}")).
+Eval vm_compute in ("<<<M3981>>>" ++ check (runes_of_ascii "packet chars {
+    repeat float32 x_y_z,
+    @tag(0123456789)
+    char[255] rootA `{ , }`,
+}
+
+options {
+    x = zchar[00];
+    Packet = '\x00';
+}
+
+options {
+    Z9_ = ""CRC32"";
+    As = uint32;
+}// a // b")).
+Eval vm_compute in ("<<<M336>>>" ++ check (runes_of_ascii "packet
+    a1//	t
+{ @tag( 10 )	match x
+    as float { 007
+: falsey
+    , }	,}
+options
+    { uint8x  = false ; } MetaData
+    rootA
+    {
+//	t
+// packet A { u8 x, }
+u32 i64_	,zchar[ 42] zchar, }
+")).
+Eval vm_compute in ("<<<M1077>>>" ++ check (runes_of_ascii "// @lengthOf(
+MetaData u
+{ char[]	float
+    ,u8
+    leftPad
+`
+` ,
+// a // b
+// a // b
+metadata
+string_ ,char[] // c
+Header
+    // trailing space 
+    , zchar[
+    0123456789]  a1`
+` ,}
+")).
+Eval vm_compute in ("<<<M4216>>>" ++ check (runes_of_ascii "options {
+    // `tick` ""quote"" 'q'
+    len = """ ++ [28040; 24687]%N ++ runes_of_ascii """;
+    options1 = int32
+    zchar = ""1"";
+    float = true
+    tag = """ ++ [28040; 24687]%N ++ runes_of_ascii """;
+}
+
+MetaData u128 {
+    msg_type i8i8 `doc`,
+    o body,
+}")).
+Eval vm_compute in ("<<<M3619>>>" ++ check (runes_of_ascii "
+
+  packet u128 { u128
+    @lengthOf(
+
+    matchKey 
+)
+,
+u64	//x
+crc 
+`a\`
+    , @calculatedFrom(
+
+""x y""	)
+
+    float32 zchar,	repeat char[ 007
+] 
+uint8x, a1
+, }
+")).
+Eval vm_compute in ("<<<M4097>>>" ++ check (runes_of_ascii "
+root
+packet
+
+    BodyLength
+
+{
+
+}// `tick` ""quote"" 'q'
+
+root 
+	// `tick` ""quote"" 'q'
+packet
+f32a	// c
+  {
+@leftPad
+
+    ( '0'
+    ) 
+//
+    int8  Z9_ ,  }
+
+")).
+Eval vm_compute in ("<<<M1252>>>" ++ check (runes_of_ascii "  root packet pack  {
+    /// triple
+    @calculatedFrom(
+""it's"" ) //
+zchar[ 0123456789
+    ] packetx
+@calculatedFrom( ""CRC32"" ) , char[]
+BodyLength , }
+// c
+")).
+Eval vm_compute in ("<<<M1178>>>" ++ check (runes_of_ascii "//x
+options {Header= ' 'string_ = '\x00' ;
+    pack=""a\""b"" ;
+    trueish = 255 }
+options
+// " ++ [27880; 37322]%N ++ runes_of_ascii "
+// @lengthOf(
+{ asx// `tick` ""quote"" 'q'
+= ""`tick`"" ; }
+")).
+Eval vm_compute in ("<<<M10>>>" ++ check (runes_of_ascii "MetaData
+    chars{
+char[]Header `say ""hi""`
+,
+    char[] matchKey
+,char[ 1
+    ]  u8x , zchar A ,x falsey
+,
+zchar[ 42
+    ] calculatedFrom , }
+")).
+Eval vm_compute in ("<<<M1688>>>" ++ check (runes_of_ascii "root packet /// triple
+rootA {	i32
+MetaDataX@calculatedFrom( ""CRC32"" ) `line1
+line2` , } MetaData BodyLength BodyLength {
+u8
+rootA, } // c")).
+Eval vm_compute in ("<<<M719>>>" ++ check (runes_of_ascii "// packet A { u8 x, }
+options { falsey =
+int64 crc
+= i16 // a // b
+;
+}packet options1
+// `tick` ""quote"" 'q'
+//x
+{ // trailing space 
+}")).
+Eval vm_compute in ("<<<M3605>>>" ++ check (runes_of_ascii "packet A {
     match k as n {
         [
-            22, 4, 66, ""a"", ""c c"",
-            ""e"", ""g""
+            1, 22, ""c c"", 4, 5,
+            ""f"", 7, 8
         ] : B,
         2 : C,
     },
 }")).
-Eval vm_compute in ("<<<M3684>>>" ++ check (runes_of_ascii "
-
-  packet Logon
-
-{
-	@tag(
-
-    42)
-@rightPad ( ' ' )
-    @leftPad
-    (
-	) repeat 
-trueish{ 
-  // c
-	  string 
-T , 
-} ,
-    }
+Eval vm_compute in ("<<<M3681>>>" ++ check (runes_of_ascii "
+packet 
+      // @lengthOf(
+    	roots	{ u32 calculatedFrom
+@calculatedFrom( ""\" ++ [233]%N ++ runes_of_ascii """ // @lengthOf(
+  	)  // `tick` ""quote"" 'q'
+,}
 ")).
-Eval vm_compute in ("<<<M1627>>>" ++ check (runes_of_ascii "packet root /// triple
+Eval vm_compute in ("<<<M1704>>>" ++ check (runes_of_ascii "root packet /// triple
+rootA {	i32
+MetaDataX@calculatedFrom( ""CRC32"" ) `line1
+line2` , } MetaData BodyLength {
+u8
+,rootA } // c")).
+Eval vm_compute in ("<<<M1632>>>" ++ check (runes_of_ascii "root u16 /// triple
 rootA {	i32
 MetaDataX@calculatedFrom( ""CRC32"" ) `line1
 line2` , } MetaData BodyLength {
 u8
 rootA, } // c")).
-Eval vm_compute in ("<<<M1712>>>" ++ check (runes_of_ascii "root packet /// triple
-rootA {	i32
+Eval vm_compute in ("<<<M1633>>>" ++ check (runes_of_ascii "root packet /// triple
+ {	i32
 MetaDataX@calculatedFrom( ""CRC32"" ) `line1
 line2` , } MetaData BodyLength {
 u8
-rootA,  // c")).
-Eval vm_compute in ("<<<M1890>>>" ++ check (runes_of_ascii "packet
+rootA, } // c")).
+Eval vm_compute in ("<<<M1851>>>" ++ check (runes_of_ascii "packet
     Pad // a // b
 { i8i8 @calculatedFrom( ""a	b"") `u8 x,` ,
 } options{ float// " ++ [128512]%N ++ runes_of_ascii " emoji
-= f64 i64_
+= f64 f64 i64_
 =//	t
-@leftpad00 }
+00 }
 ")).
-Eval vm_compute in ("<<<M1323>>>" ++ check (runes_of_ascii "options {
-tag = ""// no comment""/// triple
-calculatedFrom= 10
-    Packet
-    // `tick` ""quote"" 'q'
-    ='0' ; }
-// a // b
-")).
-Eval vm_compute in ("<<<M3423>>>" ++ check (runes_of_ascii "
-options
-
-    { LittleEndian
-
-=	true
-
-    ; } root packet 
-P 
-{ 
-repeat char
-	cs
-    ,
-
-    u8
-
-    x ,
-    }
-
-")).
-Eval vm_compute in ("<<<M1837>>>" ++ check (runes_of_ascii "packet
+Eval vm_compute in ("<<<M1836>>>" ++ check (runes_of_ascii "packet
     Pad // a // b
 { i8i8 @calculatedFrom( ""a	b"") `u8 x,` ,
-} options float {// " ++ [128512]%N ++ runes_of_ascii " emoji
+} options{ { float// " ++ [128512]%N ++ runes_of_ascii " emoji
 = f64 i64_
 =//	t
 00 }
 ")).
-Eval vm_compute in ("<<<M1842>>>" ++ check (runes_of_ascii "packet
-    Pad // a // b
-{ i8i8 @calculatedFrom( ""a	b"") `u8 x,` ,
-} options{ =// " ++ [128512]%N ++ runes_of_ascii " emoji
-float f64 i64_
-=//	t
-00 }
-")).
-Eval vm_compute in ("<<<M358>>>" ++ check (runes_of_ascii "MetaData Packet { u128  u128 `say ""hi""` ,
-    // @lengthOf(
-    zchar
-    len ,
-Pad T `say ""hi""` // " ++ [128512]%N ++ runes_of_ascii " emoji
-,
-}
-")).
-Eval vm_compute in ("<<<M907>>>" ++ check (runes_of_ascii "options{ zchar
-/// triple
-// a // b
-=42 //
-i64_ = char[]T=
-    // trailing space 
-    char repeatCount =
-' ' ;}
+Eval vm_compute in ("<<<M4018>>>" ++ check (runes_of_ascii "packet Logon {
+    @tag(42)
+    @rightPad(' ')
+    @leftPad()
+    // c
+    repeat trueish {
+        string T,
+    },
+}")).
+Eval vm_compute in ("<<<M3590>>>" ++ check (runes_of_ascii "options
+{ } packet
 
-")).
-Eval vm_compute in ("<<<M799>>>" ++ check (runes_of_ascii "root packet trueish {
-@tag(255
-    )
-    // `tick` ""quote"" 'q'
-    repeat f32a
-    leftPad /// triple
-`doc`,}
-")).
-Eval vm_compute in ("<<<M862>>>" ++ check (runes_of_ascii "MetaData// " ++ [27880; 37322]%N ++ runes_of_ascii "
-Pad { roots options1`tab	here`
-, //	t
-char[ 0123456789
-// `tick` ""quote"" 'q'
-// c
-] Foo , }
-")).
-Eval vm_compute in ("<<<M3338>>>" ++ check (runes_of_ascii "
-// c
-packet calculatedFrom { @tag( 4294967296 ) u msg_type , char[ 3 ] crc @lengthOf( len ) `u8 x,` , }")).
-Eval vm_compute in ("<<<M3356>>>" ++ check (runes_of_ascii "packet calculatedFrom { @tag( 4294967296 ) u msg_type ,
-// c
-char[ 3 ] crc @lengthOf( len ) `u8 x,` , }")).
-Eval vm_compute in ("<<<M1800>>>" ++ check (runes_of_ascii "packet
-    Pad // a // b
-{ i8i8  ""a	b"") `u8 x,` ,
-} options{ float// " ++ [128512]%N ++ runes_of_ascii " emoji
-= f64 i64_
-=//	t
-00 }
-")).
-Eval vm_compute in ("<<<M3986>>>" ++ check (runes_of_ascii "packet A {
+    u128 {
+repeat
+uint8x
+
+x`say ""hi""`
+,// trailing space 
+	  }
+    MetaData
+
+    crc	{
+    }")).
+Eval vm_compute in ("<<<M3746>>>" ++ check (runes_of_ascii "MetaData u128 {
+    x_y_z x_y_z `tab	here`,
+    string charz,
+    i64 roots `{ , }`,/// triple
+    Logon packetx,
+}")).
+Eval vm_compute in ("<<<M2978>>>" ++ check (runes_of_ascii "packet A {
+  match k as n {
+    [""a"", ""bb"", ""c c"", ""d"", ""e"", ""f"", ""g"", ""h"", ""i"", ""j"", ""k""] : B,
+    2 : C
+  },
+}")).
+Eval vm_compute in ("<<<M498>>>" ++ check (runes_of_ascii "packet  options1 {
+    _x string_ , string
+    zchar @lengthOf(f32a// packet A { u8 x, }
+)
+, uint64
+x ,
+    }")).
+Eval vm_compute in ("<<<M2987>>>" ++ check (runes_of_ascii "packet A {
+  match k as n {
+    [""a"", ""bb"", 007, ""d"", ""e"", 66, ""g"", ""h"", 9, ""j"", ""k""] : B
+    2 : C
+  },
+}")).
+Eval vm_compute in ("<<<M1100>>>" ++ check (runes_of_ascii "MetaData //
+trueish {_x asx ,
+trueish roots,	falsey
+    asx `" ++ [233]%N ++ runes_of_ascii "`
+    //
+    , rootA	options1
+    ,} 	 ")).
+Eval vm_compute in ("<<<M3363>>>" ++ check (runes_of_ascii "packet calculatedFrom { @tag( 4294967296 ) u msg_type , char[ 3 ] crc // c
+@lengthOf( len ) `u8 x,` , }")).
+Eval vm_compute in ("<<<M3005>>>" ++ check (runes_of_ascii "packet A {
     Inner {
-        match k as n {
-            [1, 22, 007, 4] : B,
+        u8 x `a
+b`,
+        Deep {
+            u8 y `a
+b`,
         },
     },
 }")).
-Eval vm_compute in ("<<<M393>>>" ++ check (runes_of_ascii "MetaData len {
-i64
-tag `// not a comment`
-, int32 i8i8
-,
-crc
-    i8i8 `{ , }` ,} // @lengthOf(")).
-Eval vm_compute in ("<<<M3238>>>" ++ check (runes_of_ascii "packet Logon { @tag( 42 ) @rightPad ( ' ' ) @leftPad ( // c
+Eval vm_compute in ("<<<M575>>>" ++ check (runes_of_ascii "// @lengthOf(
+packet o/// triple
+{string
+pack
+, // packet A { u8 x, }
+trueish `" ++ [233]%N ++ runes_of_ascii "`, } /// triple")).
+Eval vm_compute in ("<<<M586>>>" ++ check (runes_of_ascii "options {charz=//	t
+""" ++ [28040; 24687]%N ++ runes_of_ascii """rootA= '0'//	t
+trueish=  ""// no comment""; }
+options { body
+=
+char[] }
+")).
+Eval vm_compute in ("<<<M3239>>>" ++ check (runes_of_ascii "packet Logon { @tag( 42 ) @rightPad ( ' ' ) @leftPad (
+// c
 ) repeat trueish { string T , } , }")).
-Eval vm_compute in ("<<<M2957>>>" ++ check (runes_of_ascii "packet A {
+Eval vm_compute in ("<<<M1408>>>" ++ check (runes_of_ascii "root packet SimpleMessage {
+    uint16 MsgType `" ++ [28040; 24687; 31867; 22411]%N ++ runes_of_ascii "`,
+    string JsonBody `Json" ++ [23383; 31526; 20018; 28040; 24687; 20307]%N ++ runes_of_ascii "`,
+}")).
+Eval vm_compute in ("<<<M2927>>>" ++ check (runes_of_ascii "packet A {
   match k as n {
-    [""a"", 22, ""c c"", 4, ""e"", 66, ""g"", 8, ""i""] : B
+    [""a"", ""bb"", ""c c"", ""d"", ""e"", ""f"", ""g""] : B
     2 : C
   },
 }")).
-Eval vm_compute in ("<<<M3738>>>" ++ check (runes_of_ascii "MetaData trueish {
-    _x asx,
-    trueish roots,
-    falsey asx `" ++ [233]%N ++ runes_of_ascii "`,
-    rootA options1,
+Eval vm_compute in ("<<<M2963>>>" ++ check (runes_of_ascii "packet A {
+  match k as n {
+    [1, 22, 007, 4, 5, 66, 7, 8, 9, 10] : B,
+    2 : C
+  },
 }")).
-Eval vm_compute in ("<<<M555>>>" ++ check (runes_of_ascii "
-options {
-    len
-= char[
-10 ]
-    asx =
-false
-; string_ = """"; } // `tick` ""quote"" 'q'")).
-Eval vm_compute in ("<<<M2030>>>" ++ check (runes_of_ascii "root
-packet crc
-    `{ f32a @calculatedFrom( """ ++ [233]%N ++ runes_of_ascii "t" ++ [233]%N ++ runes_of_ascii """ )
-    `say ""hi""`, lengthOf `` ,  }")).
-Eval vm_compute in ("<<<M2013>>>" ++ check (runes_of_ascii "root
+Eval vm_compute in ("<<<M3171>>>" ++ check (runes_of_ascii "packet A { match k as n // a
+ { // b
+ 1 // c
+ : // d
+ B // e
+ , // f
+ } // g
+ , // h
+ }")).
+Eval vm_compute in ("<<<M1371>>>" ++ check (runes_of_ascii "
+options { repeatCount =	""CRC32""x =true //x
+u  = ""\" ++ [233]%N ++ runes_of_ascii """
+    ; stringy = //
+'\x00'; }
+")).
+Eval vm_compute in ("<<<M2016>>>" ++ check (runes_of_ascii "root
 packet crc
     { f32a @calculatedFrom( """ ++ [233]%N ++ runes_of_ascii "t" ++ [233]%N ++ runes_of_ascii """ )
-    `say ""hi""`, lengthOf , ``  }")).
-Eval vm_compute in ("<<<M2929>>>" ++ check (runes_of_ascii "packet A {
+    `say ""hi""`, lengthOf ``   }")).
+Eval vm_compute in ("<<<M2900>>>" ++ check (runes_of_ascii "packet A {
   match k as n {
-    [1, ""bb"", 007, ""d"", 5, ""f"", 7] : B
+    [""a"", ""bb"", ""c c"", ""d"", ""e""] : B,
     2 : C
   },
 }")).
-Eval vm_compute in ("<<<M3297>>>" ++ check (runes_of_ascii "packet o
-// c
-{ @tag( 42 ) repeat x { char[ 0123456789 ] i64_ , } , } options { }")).
-Eval vm_compute in ("<<<M3329>>>" ++ check (runes_of_ascii "packet o { @tag( 42 ) repeat x { char[ 0123456789 ] i64_ , } , } options
-// c
-{ }")).
-Eval vm_compute in ("<<<M2924>>>" ++ check (runes_of_ascii "packet A {
-  match k as n {
-    [1, 22, 007, 4, 5, 66, 7] : B,
-    2 : C
-  },
+Eval vm_compute in ("<<<M3306>>>" ++ check (runes_of_ascii "packet o { @tag( 42 ) repeat // c
+x { char[ 0123456789 ] i64_ , } , } options { }")).
+Eval vm_compute in ("<<<M68>>>" ++ check (runes_of_ascii "options { stringy=""x y""  ;
+chars
+=true Logon = string crc = true Logon
+= char }")).
+Eval vm_compute in ("<<<M4147>>>" ++ check (runes_of_ascii "packet Inner {
+    u8 a,
+}
+
+root packet P {
+    repeat Inner items,
+    u8 x,
 }")).
-Eval vm_compute in ("<<<M2284>>>" ++ check (runes_of_ascii "MetaData Packet { }packet	asx  { @lengthOf( asx) falsey`crlf
-line`
-,
-    }")).
-Eval vm_compute in ("<<<M3774>>>" ++ check (runes_of_ascii "packet A {
-    @leftPad()
-    char[4] x,
-    @rightPad()
-    zchar[2] y,
+Eval vm_compute in ("<<<M1839>>>" ++ check (runes_of_ascii "packet
+    Pad // a // b
+{ i8i8 @calculatedFrom( ""a	b"") `u8 x,` ,
+} options")).
+Eval vm_compute in ("<<<M3424>>>" ++ check (runes_of_ascii "packet Inner {
+    u8 a,
+}
+root packet P {
+    Inner ref_obj,
+    u8 x,
+}
+")).
+Eval vm_compute in ("<<<M263>>>" ++ check (runes_of_ascii "packet zchar
+{
+    roots
+{ i64 f32a
+    `" ++ [28040; 24687; 31867; 22411]%N ++ runes_of_ascii "`	, float32 zchar , }
+, }")).
+Eval vm_compute in ("<<<M3398>>>" ++ check (runes_of_ascii "MetaData _x
+// c
+{ zchar[ 4294967296 ] lengthOf `// not a comment` , }")).
+Eval vm_compute in ("<<<M3738>>>" ++ check (runes_of_ascii "packet A {
+    B b `
+    `,
+    B `
+    `,
+    repeat B bs `
+    `,
 }")).
-Eval vm_compute in ("<<<M1671>>>" ++ check (runes_of_ascii "root packet /// triple
-rootA {	i32
-MetaDataX@calculatedFrom( ""CRC32"" )")).
-Eval vm_compute in ("<<<M3401>>>" ++ check (runes_of_ascii "MetaData _x { zchar[ // c
-4294967296 ] lengthOf `// not a comment` , }")).
-Eval vm_compute in ("<<<M294>>>" ++ check (runes_of_ascii "
+Eval vm_compute in ("<<<M2005>>>" ++ check (runes_of_ascii "root
+packet crc
+    { f32a @calculatedFrom( """ ++ [233]%N ++ runes_of_ascii "t" ++ [233]%N ++ runes_of_ascii """ )
+    `say ""hi""`")).
+Eval vm_compute in ("<<<M3027>>>" ++ check (runes_of_ascii "packet A {
+    B b `a
+
+b`,
+    B `a
+
+b`,
+    repeat B bs `a
+
+b`,
+}")).
+Eval vm_compute in ("<<<M3691>>>" ++ check (runes_of_ascii "  //x
+
 packet
-    //x
-    MetaDataX { repeat rootA `two words` //x
-,//
-}")).
-Eval vm_compute in ("<<<M2205>>>" ++ check (runes_of_ascii "root
-    // `tick` ""quote"" 'q'
-    packet As { trueish @Packet , }
+
+zchar
+	{@calculatedFrom(""CRC32""  )lengthOf ,
+	}
+
 ")).
-Eval vm_compute in ("<<<M3750>>>" ++ check (runes_of_ascii "MetaData _x {
-    zchar[4294967296] lengthOf `// not a comment`,
-}")).
-Eval vm_compute in ("<<<M252>>>" ++ check (runes_of_ascii "packet
-f32a { //
-@tag( 1 )  Z9_ chars ,chars// " ++ [128512]%N ++ runes_of_ascii " emoji
-`
-`, }
-")).
-Eval vm_compute in ("<<<M1950>>>" ++ check (runes_of_ascii "
-packet	As { @cal'\x01'culatedFrom(//x
-""{,}""	)lengthOf , } 	 ")).
-Eval vm_compute in ("<<<M618>>>" ++ check (runes_of_ascii "options { crc =true ;lengthOf
-= // a // b
-char[	0 ] } //	t")).
+Eval vm_compute in ("<<<M671>>>" ++ check (runes_of_ascii "options
+    {i64_ = string tag =
+    float32 Pad  = ""{,}"" ; }")).
+Eval vm_compute in ("<<<M1933>>>" ++ check (runes_of_ascii "
+packet	As { @calculatedFrom(//x
+""{,}""	)lengthOf int64 } 	 ")).
 Eval vm_compute in ("<<<M1908>>>" ++ check (runes_of_ascii "
 packet	As f64 @calculatedFrom(//x
 ""{,}""	)lengthOf , } 	 ")).
-Eval vm_compute in ("<<<M2788>>>" ++ check (runes_of_ascii "repeat } ( f32 char[ repeat false int32 uint64 @rightPad")).
-Eval vm_compute in ("<<<M3818>>>" ++ check (runes_of_ascii "MetaData trueish {
-    char[] chars,
-    char[] int,
-}")).
-Eval vm_compute in ("<<<M2409>>>" ++ check (runes_of_ascii "MetaData A
-{
-string
+Eval vm_compute in ("<<<M2421>>>" ++ check (runes_of_ascii "MetaData A
+@leftpad{
+i64
 chars	, } // `tick` ""quote"" 'q'")).
-Eval vm_compute in ("<<<M620>>>" ++ check (runes_of_ascii "MetaData //
-body{
-    } // c
-options { // " ++ [27880; 37322]%N ++ runes_of_ascii "
+Eval vm_compute in ("<<<M4360>>>" ++ check (runes_of_ascii "options	{
+
+} 
+options{
+    }  // `tick` ""quote"" " ++ [65279]%N ++ runes_of_ascii "'q'
+")).
+Eval vm_compute in ("<<<M3377>>>" ++ check (runes_of_ascii "// top
+packet // c0
+lengthOf // c1
+{ // c2
+} // c3
+")).
+Eval vm_compute in ("<<<M1809>>>" ++ check (runes_of_ascii "packet
+    Pad // a // b
+{ i8i8 @calculatedFrom(")).
+Eval vm_compute in ("<<<M195>>>" ++ check (runes_of_ascii "root
+packet
+// packet A { u8 x, }
+//	t
+Z9_ {
 }
 ")).
-Eval vm_compute in ("<<<M3849>>>" ++ check (runes_of_ascii "
-packet
-    asx
-{	calculatedFrom
-
-lengthOf,  }
+Eval vm_compute in ("<<<M342>>>" ++ check (runes_of_ascii "packet o{ char[0123456789 ] asx `doc`
+    ,	}
 ")).
-Eval vm_compute in ("<<<M1342>>>" ++ check (runes_of_ascii "
-packet u128  {  char[00// " ++ [128512]%N ++ runes_of_ascii " emoji
-]
-Pad , }
+Eval vm_compute in ("<<<M2737>>>" ++ check (runes_of_ascii "65535 MetaData [ repeat u64 zchar[ false char")).
+Eval vm_compute in ("<<<M1399>>>" ++ check (runes_of_ascii "  packet asx{
+calculatedFrom lengthOf
+,	}
 ")).
-Eval vm_compute in ("<<<M2817>>>" ++ check (runes_of_ascii "i8 root char[] as `a\` uint8x f64 @rightPad ]")).
-Eval vm_compute in ("<<<M2741>>>" ++ check (runes_of_ascii ": f32 false string u32 ; `crlf
-line` ""{,}""")).
-Eval vm_compute in ("<<<M1939>>>" ++ check (runes_of_ascii "
-packet	As { @calculatedFrom(//x
-""{,}""	)l")).
-Eval vm_compute in ("<<<M2125>>>" ++ check (runes_of_ascii "MetaData x
-{// " ++ [128512]%N ++ runes_of_ascii " emoji
-i16 stringy , , }")).
-Eval vm_compute in ("<<<M3461>>>" ++ check (runes_of_ascii "
-
-  root 
-packet	P{
-	string	s,
-
-    } ")).
+Eval vm_compute in ("<<<M404>>>" ++ check (runes_of_ascii "options
+{
+    stringy
+=
+true
+    ;  } //")).
+Eval vm_compute in ("<<<M2112>>>" ++ check (runes_of_ascii "MetaData x
+f64// " ++ [128512]%N ++ runes_of_ascii " emoji
+i16 stringy , }")).
+Eval vm_compute in ("<<<M3415>>>" ++ check (runes_of_ascii "root packet P {
+    char c,
+    u8 x,
+}
+")).
 Eval vm_compute in ("<<<M1752>>>" ++ check (runes_of_ascii "options { } {  } // `tick` ""quote"" 'q'")).
-Eval vm_compute in ("<<<M2580>>>" ++ check (runes_of_ascii "packet A { zchar[3] x @lengthOf(y), }")).
-Eval vm_compute in ("<<<M197>>>" ++ check (runes_of_ascii "  options { leftPad =	""it's""
+Eval vm_compute in ("<<<M2124>>>" ++ check (runes_of_ascii "MetaData x
+{// " ++ [128512]%N ++ runes_of_ascii " emoji
+i16 stringy  }")).
+Eval vm_compute in ("<<<M499>>>" ++ check (runes_of_ascii "packet Packet {crc u `two words` ,}")).
+Eval vm_compute in ("<<<M3894>>>" ++ check (runes_of_ascii "// c
+  options
+	{u8x =3
+
     }
 ")).
-Eval vm_compute in ("<<<M2805>>>" ++ check (runes_of_ascii "`// not a comment` int64 int8 true")).
-Eval vm_compute in ("<<<M2836>>>" ++ check (runes_of_ascii "root float64 } packet true i32 ,")).
-Eval vm_compute in ("<<<M1289>>>" ++ check (runes_of_ascii "
-packet //x
-Header // " ++ [27880; 37322]%N ++ runes_of_ascii "
-{	}")).
-Eval vm_compute in ("<<<M3727>>>" ++ check (runes_of_ascii "packet A {
-    u8 x `
-    `,
+Eval vm_compute in ("<<<M3148>>>" ++ check (runes_of_ascii "packet A {
+ u8 x `d x`, // c x
 }")).
-Eval vm_compute in ("<<<M2708>>>" ++ check (runes_of_ascii "M#T%6 >pw-dCYhy71MjW^j+tv~#}")).
-Eval vm_compute in ("<<<M4047>>>" ++ check (runes_of_ascii "
-
-  MetaData
-leftPad	{ }
+Eval vm_compute in ("<<<M2101>>>" ++ check (runes_of_ascii " x
+{// " ++ [128512]%N ++ runes_of_ascii " emoji
+i16 stringy , }")).
+Eval vm_compute in ("<<<M1765>>>" ++ check (runes_of_ascii "options { }options {  } // `t")).
+Eval vm_compute in ("<<<M3637>>>" ++ check (runes_of_ascii "
+MetaData
+M
+{
+    x y
+, 
+}")).
+Eval vm_compute in ("<<<M445>>>" ++ check (runes_of_ascii "
+options  { Z9_ =	'\x00'}")).
+Eval vm_compute in ("<<<M2087>>>" ++ check (runes_of_ascii "MetaData A { /u64 pack, }")).
+Eval vm_compute in ("<<<M1192>>>" ++ check (runes_of_ascii "options { Foo= ' ' ;  }
 ")).
-Eval vm_compute in ("<<<M880>>>" ++ check (runes_of_ascii "// " ++ [128512]%N ++ runes_of_ascii " emoji
-packet f32a{}
+Eval vm_compute in ("<<<M3387>>>" ++ check (runes_of_ascii "packet lengthOf {
+// c
+}")).
+Eval vm_compute in ("<<<M413>>>" ++ check (runes_of_ascii "
+packet msg_type {
+}
 ")).
-Eval vm_compute in ("<<<M807>>>" ++ check (runes_of_ascii "  packet stringy {
-    }")).
-Eval vm_compute in ("<<<M3384>>>" ++ check (runes_of_ascii "packet lengthOf // c
-{ }")).
-Eval vm_compute in ("<<<M772>>>" ++ check (runes_of_ascii "packet
-    crc {
-    }")).
-Eval vm_compute in ("<<<M2069>>>" ++ check (runes_of_ascii "MetaData A { u64 ,, }")).
-Eval vm_compute in ("<<<M2768>>>" ++ check (runes_of_ascii "} float64 ""a	b"" : u8")).
-Eval vm_compute in ("<<<M4450>>>" ++ check (runes_of_ascii "// @lengthOf(
-
-//	t")).
-Eval vm_compute in ("<<<M3087>>>" ++ check (runes_of_ascii "// c" ++ [8192]%N ++ runes_of_ascii "
+Eval vm_compute in ("<<<M2572>>>" ++ check (runes_of_ascii "packet A { x y `d`, }")).
+Eval vm_compute in ("<<<M2841>>>" ++ check (runes_of_ascii "29" ++ [5; 6]%N ++ runes_of_ascii "<" ++ [65533]%N ++ runes_of_ascii "F>" ++ [6]%N ++ runes_of_ascii "r " ++ [65533]%N ++ runes_of_ascii "C" ++ [65533; 65533; 0; 65533]%N ++ runes_of_ascii "2N" ++ [65533]%N)).
+Eval vm_compute in ("<<<M4187>>>" ++ check (runes_of_ascii "packet
+	chars
+{ }
+")).
+Eval vm_compute in ("<<<M3077>>>" ++ check (runes_of_ascii "// c" ++ [133]%N ++ runes_of_ascii "
 packet A {
 }")).
-Eval vm_compute in ("<<<M2565>>>" ++ check (runes_of_ascii "packet A { u8 , }")).
-Eval vm_compute in ("<<<M3921>>>" ++ check (runes_of_ascii "root packet u {
-}")).
-Eval vm_compute in ("<<<M2568>>>" ++ check (runes_of_ascii "packet A { x, }")).
-Eval vm_compute in ("<<<M3572>>>" ++ check (runes_of_ascii "// @lengthOf(")).
-Eval vm_compute in ("<<<M2483>>>" ++ check (runes_of_ascii "@centerPad")).
-Eval vm_compute in ("<<<M2843>>>" ++ check (runes_of_ascii "] repeat")).
-Eval vm_compute in ("<<<M2456>>>" ++ check (runes_of_ascii "string")).
-Eval vm_compute in ("<<<M2508>>>" ++ check (runes_of_ascii """a\""""")).
-Eval vm_compute in ("<<<M2441>>>" ++ check (runes_of_ascii "uint")).
-Eval vm_compute in ("<<<M2472>>>" ++ check (runes_of_ascii "'1'")).
-Eval vm_compute in ("<<<M2475>>>" ++ check (runes_of_ascii "'0")).
-Eval vm_compute in ("<<<M2674>>>" ++ check (runes_of_ascii ",")).
+Eval vm_compute in ("<<<M1148>>>" ++ check (runes_of_ascii "packet f32a
+{ }
+
+")).
+Eval vm_compute in ("<<<M3134>>>" ++ check (runes_of_ascii "packet A {
+}// c" ++ [65279]%N)).
+Eval vm_compute in ("<<<M2564>>>" ++ check (runes_of_ascii "packet A { u8 }")).
+Eval vm_compute in ("<<<M303>>>" ++ check (runes_of_ascii "options	{
+}
+")).
+Eval vm_compute in ("<<<M2484>>>" ++ check (runes_of_ascii "@lengthOf(")).
+Eval vm_compute in ("<<<M2424>>>" ++ check (runes_of_ascii "char[ ]")).
+Eval vm_compute in ("<<<M2723>>>" ++ check (runes_of_ascii "y)5" ++ [65533; 65533; 65533]%N)).
+Eval vm_compute in ("<<<M2810>>>" ++ check ([14]%N ++ runes_of_ascii "'" ++ [65533]%N ++ runes_of_ascii "s" ++ [65533]%N)).
+Eval vm_compute in ("<<<M2498>>>" ++ check (runes_of_ascii "// x")).
+Eval vm_compute in ("<<<M2522>>>" ++ check (runes_of_ascii "`""`")).
+Eval vm_compute in ("<<<M2528>>>" ++ check (runes_of_ascii "-1")).
+Eval vm_compute in ("<<<M44>>>" ++ check (@nil rune)).
